@@ -49,7 +49,6 @@ Qed.
 Lemma kmem_false k l : kmem k l = false <-> ~ In k l.
 Proof. rewrite <- kmem_In. destruct (kmem k l); split; congruence. Qed.
 
-Definition keys (l : list modl) : list key := map mkey l.
 
 (* every setter keeps the key *)
 Lemma mkey_set_impl b m : mkey (set_impl b m) = mkey m. Proof. reflexivity. Qed.
@@ -294,12 +293,6 @@ Qed.
 (* ------------------------------------------------------------------------------------------------ *)
 (* executable well-formedness: the quiescent states                                                 *)
 (* ------------------------------------------------------------------------------------------------ *)
-Fixpoint pairs_eqb (a b : list (N * N)) : bool :=
-  match a, b with
-  | [], [] => true
-  | (x1, x2) :: a', (y1, y2) :: b' => (x1 =? y1) && (x2 =? y2) && pairs_eqb a' b'
-  | _, _ => false
-  end.
 Lemma pairs_eqb_eq a b : pairs_eqb a b = true <-> a = b.
 Proof.
   revert b. induction a as [|[x1 x2] a IH]; intros [|[y1 y2] b]; cbn [pairs_eqb]; split; intros H;
@@ -309,32 +302,18 @@ Proof.
   - inversion H; subst. rewrite !N.eqb_refl. cbn. apply IH. reflexivity.
 Qed.
 
-Definition comp_eqb (a b : option (list (N * N))) : bool :=
-  match a, b with
-  | None, None => true
-  | Some x, Some y => pairs_eqb x y
-  | _, _ => false
-  end.
 Lemma comp_eqb_eq a b : comp_eqb a b = true <-> a = b.
 Proof.
   destruct a as [x|], b as [y|]; cbn [comp_eqb]; try (split; [discriminate|discriminate]); try tauto.
   rewrite pairs_eqb_eq. split; [intros ->; reflexivity|intros H; inversion H; reflexivity].
 Qed.
 
-Definition feat_eqb (f g : feat) : bool :=
-  (f_name f =? f_name g) && beq_bytes (f_deps f) (f_deps g) && Bool.eqb (f_on f) (f_on g).
 Lemma feat_eqb_eq f g : feat_eqb f g = true <-> f = g.
 Proof.
   destruct f as [n1 d1 o1], g as [n2 d2 o2]. unfold feat_eqb. cbn [f_name f_deps f_on].
   rewrite !andb_true_iff, N.eqb_eq, beq_bytes_eq, Bool.eqb_true_iff.
   split; [intros [[-> ->] ->]; reflexivity|intros H; inversion H; tauto].
 Qed.
-Fixpoint feats_eqb (a b : list feat) : bool :=
-  match a, b with
-  | [], [] => true
-  | x :: a', y :: b' => feat_eqb x y && feats_eqb a' b'
-  | _, _ => false
-  end.
 Lemma feats_eqb_eq a b : feats_eqb a b = true <-> a = b.
 Proof.
   revert b. induction a as [|x a IH]; intros [|y b]; cbn [feats_eqb]; split; intros H;
@@ -343,8 +322,6 @@ Proof.
   - inversion H; subst. apply andb_true_iff. split; [apply feat_eqb_eq|apply IH]; reflexivity.
 Qed.
 
-Fixpoint nodupb (l : list key) : bool :=
-  match l with [] => true | x :: r => negb (kmem x r) && nodupb r end.
 Lemma nodupb_NoDup l : nodupb l = true <-> NoDup l.
 Proof.
   induction l as [|x l IH]; cbn [nodupb].
@@ -353,36 +330,6 @@ Proof.
     + intros [H1 H2]. constructor; assumption.
     + intros H. inversion H; subst. tauto.
 Qed.
-
-(* a list key under a disabled if-feature *)
-Definition key_fault (m : modl) : bool := (m_cfault m =? 5) && negb (first_feat_on (m_feats m)).
-(* the module passes lys_check_features and compiles *)
-Definition compiles_ok (m : modl) : bool :=
-  check_features (m_feats m) && negb (node_fault m) && negb (leafref_fault m) && negb (key_fault m).
-
-(* no to_compile mark, imports are modules of the context, implemented = compiled against the current features
-   (and it would compile again), not implemented = no compiled tree *)
-Definition mod_ok (l : list modl) (m : modl) : bool :=
-  negb (m_tc m) && forallb (fun k => kmem k (keys l)) (m_imps m) &&
-  (if m_impl m then comp_eqb (m_comp m) (Some (snapshot l m)) && compiles_ok m
-   else comp_eqb (m_comp m) None).
-
-Definition is_nil {A} (l : list A) : bool := match l with [] => true | _ => false end.
-
-(* nothing pending: what every state of a context without LY_CTX_EXPLICIT_COMPILE looks like between two calls
-   unless one of the defects struck, and a context with explicit compilation right after ly_ctx_compile() *)
-Definition quiescent (s : state) : bool :=
-  nodupb (keys (mods s)) && forallb (mod_ok (mods s)) (mods s) && is_nil (creating s) && is_nil (implementing s).
-
-(* the hypotheses about the failing operation: at the point where it jumps to its cleanup, every module that
-   existed before still has its LYS_MOD_LATEST_REV bit / its feature bits *)
-Definition keeps (p : modl -> modl -> bool) (R : repo) (s : state) (o : op) : bool :=
-  forallb (fun m => match find_mod (mkey m) (mods (step_mid R s o)) with
-                    | Some m' => p m m'
-                    | None => false
-                    end) (mods s).
-Definition keeps_latest : repo -> state -> op -> bool := keeps (fun m m' => Bool.eqb (m_latest m') (m_latest m)).
-Definition keeps_features : repo -> state -> op -> bool := keeps (fun m m' => feats_eqb (m_feats m') (m_feats m)).
 
 Record wf_mod (l : list modl) (m : modl) : Prop := {
   wf_tc : m_tc m = false;
@@ -658,10 +605,8 @@ Record qrel (imp D : list key) (m m' : modl) : Prop := {
 Record QI (s : state) (imp D : list key) (t : state) : Prop := {
   qi_expl : explicit t = explicit s;
   qi_len : (length (mods s) <= length (mods t))%nat;
-  qi_creating : creating t = keys (news_of s t);
   qi_nodup : NoDup (keys (mods t));
-  qi_olds : Forall2 (qrel imp D) (mods s) (olds_of s t);
-  qi_imp : implementing t = imp }.
+  qi_olds : Forall2 (qrel imp D) (mods s) (olds_of s t) }.
 
 Lemma map_eq_Forall2 {A B} (f : A -> B) l l' : map f l' = map f l -> Forall2 (fun a b => f b = f a) l l'.
 Proof. intros H. apply Forall2_map_eq. exact H. Qed.
@@ -688,7 +633,6 @@ Proof.
   intros W P. constructor.
   - apply (pi_expl _ _ P).
   - apply (pi_len _ _ P).
-  - apply (pi_creating _ _ P).
   - apply (pi_nodup _ _ P).
   - pose proof (map_eq_Forall2 _ _ _ (pi_olds _ _ P)) as F.
     pose proof (Forall2_with_In _ _ _ F) as F'.
@@ -701,7 +645,6 @@ Proof.
     + intros [].
     + intros H. rewrite E7, (wf_tc _ _ Wm) in H. discriminate.
     + left. exact E8.
-  - apply (pi_impl _ _ P).
 Qed.
 
 Lemma PI_feats s t : PI s t -> map m_feats (olds_of s t) = map m_feats (mods s).
@@ -742,11 +685,9 @@ Proof.
   intros Q Hk Hg. constructor.
   - apply (qi_expl _ _ _ _ Q).
   - cbn [upd_s with_mods mods]. rewrite upd_length. apply (qi_len _ _ _ _ Q).
-  - rewrite news_upd_s, keys_upd by exact Hk. apply (qi_creating _ _ _ _ Q).
   - cbn [upd_s with_mods mods]. rewrite keys_upd by exact Hk. apply (qi_nodup _ _ _ _ Q).
   - rewrite olds_upd_s. apply Forall2_upd_r_in; [apply (qi_olds _ _ _ _ Q)|].
     intros m m' Hin Hr Hkk. apply Hg; [apply (In_olds s t); exact Hin|exact Hkk|exact Hr].
-  - apply (qi_imp _ _ _ _ Q).
 Qed.
 
 Lemma QI_out_of_fuel s imp D t : QI s imp D t -> QI s imp D (out_of_fuel t).
@@ -771,6 +712,7 @@ Qed.
 Record same_but (N : modl -> modl) (t t' : state) : Prop := {
   sb_expl : explicit t' = explicit t;
   sb_creating : creating t' = creating t;
+  sb_implementing : implementing t' = implementing t;
   sb_mods : map N (mods t') = map N (mods t) }.
 
 Lemma same_but_refl N t : same_but N t t.
@@ -860,13 +802,13 @@ Inductive si_case (t : state) (k : key) (sel : fsel) : state * bool -> Prop :=
 | SiFail : si_case t k sel (t, false)
 | SiSame : si_case t k sel (t, true)
 | SiFeat m fs : find_mod k (mods t) = Some m -> m_impl m = true -> set_features (m_feats m) sel = SfOk fs ->
-    si_case t k sel (upd_s k (fun m => set_tc true (set_feats fs m)) t, true)
+    si_case t k sel (add_ev EvChange (upd_s k (fun m => set_tc true (set_feats fs m)) t), true)
 | SiImpl m fs : find_mod k (mods t) = Some m -> m_impl m = false ->
     (set_features (m_feats m) sel = SfOk fs \/ fs = m_feats m) ->
     si_case t k sel
       (fst (has_compiled_import_r (S (length (mods t)))
               (with_implementing (implementing t ++ [k])
-                 (upd_s k (fun m => set_tc true (set_impl true (set_feats fs m))) t)) k), true).
+                 (add_ev EvChange (upd_s k (fun m => set_tc true (set_impl true (set_feats fs m))) t))) k), true).
 
 Lemma let_fst_true {A B} (x : A * B) : (let '(a, _) := x in (a, true)) = (fst x, true).
 Proof. destruct x; reflexivity. Qed.
@@ -879,9 +821,9 @@ Proof.
     eapply SiFeat; eassumption.
   - destruct (get_implemented (m_name m) (mods t)); [constructor|].
     destruct (set_features (m_feats m) sel) as [fs| |] eqn:Es; [| |constructor].
-    + rewrite let_fst_true. cbn [upd_s with_mods mods with_implementing implementing]. rewrite upd_length.
+    + rewrite let_fst_true. cbn [upd_s with_mods mods with_implementing implementing add_ev]. rewrite upd_length.
       eapply (SiImpl t k sel m fs); [exact F|exact Ei|left; exact Es].
-    + rewrite let_fst_true. cbn [upd_s with_mods mods with_implementing implementing]. rewrite upd_length.
+    + rewrite let_fst_true. cbn [upd_s with_mods mods with_implementing implementing add_ev]. rewrite upd_length.
       eapply (SiImpl t k sel m (m_feats m)); [exact F|exact Ei|right; reflexivity].
 Qed.
 
@@ -899,8 +841,8 @@ Qed.
 
 Lemma QI_mono_D s imp D D' t : QI s imp D t -> incl D D' -> QI s imp D' t.
 Proof.
-  intros Q Hd. destruct Q as [Q1 Q2 Q3 Q4 Q5 Q6]. constructor; try assumption.
-  eapply Forall2_impl; [|exact Q5]. intros m m' Hr. eapply qrel_mono; [exact Hr|apply incl_refl|exact Hd|].
+  intros Q Hd. destruct Q as [Q1 Q2 Q3 Q4]. constructor; try assumption.
+  eapply Forall2_impl; [|exact Q4]. intros m m' Hr. eapply qrel_mono; [exact Hr|apply incl_refl|exact Hd|].
   intros k H1 H2. contradiction.
 Qed.
 
@@ -908,14 +850,12 @@ Qed.
 Lemma QI_implement s D t k m fs :
   QI s [] D t -> find_mod k (mods t) = Some m -> m_impl m = false ->
   QI s [k] D (with_implementing (implementing t ++ [k])
-                (upd_s k (fun m => set_tc true (set_impl true (set_feats fs m))) t)).
+                (add_ev EvChange (upd_s k (fun m => set_tc true (set_impl true (set_feats fs m))) t))).
 Proof.
   intros Q F Hi. pose proof (qi_nodup _ _ _ _ Q) as Hnd.
-  constructor; cbn [with_implementing explicit creating implementing mods].
+  constructor; cbn [with_implementing add_ev explicit creating implementing mods].
   - apply (qi_expl _ _ _ _ Q).
   - cbn [upd_s with_mods mods]. rewrite upd_length. apply (qi_len _ _ _ _ Q).
-  - change (creating t = keys (news_of s (upd_s k (fun m0 => set_tc true (set_impl true (set_feats fs m0))) t))).
-    rewrite news_upd_s, keys_upd by reflexivity. apply (qi_creating _ _ _ _ Q).
   - cbn [upd_s with_mods mods]. rewrite keys_upd by reflexivity. exact Hnd.
   - change (Forall2 (qrel [k] D) (mods s) (olds_of s (upd_s k (fun m0 => set_tc true (set_impl true (set_feats fs m0))) t))).
     rewrite olds_upd_s.
@@ -935,19 +875,15 @@ Proof.
       * right. right. left. congruence.
     + apply key_eqb_neq in E. eapply qrel_mono; [exact Hr|intros x []|apply incl_refl|].
       intros k' [<-|[]] _ Heq. apply E. rewrite Heq. apply (q_key _ _ _ _ Hr).
-  - rewrite (qi_imp _ _ _ _ Q). reflexivity.
 Qed.
-
-Lemma same_but_implementing N t l : same_but N t (with_implementing l t).
-Proof. constructor; reflexivity. Qed.
 
 Lemma same_but_weaken (N N' : modl -> modl) t t' :
   (forall m, N' m = N' (N m)) -> same_but N t t' -> same_but N' t t'.
 Proof.
-  intros H [E1 E2 E3]. constructor; [exact E1|exact E2|].
+  intros H [E1 E2 E3 E4]. constructor; [exact E1|exact E2|exact E3|].
   assert (E : forall l, map N' l = map N' (map N l)).
   { intros l. rewrite map_map. apply map_ext. exact H. }
-  rewrite E, E3, <- E. reflexivity.
+  rewrite E, E4, <- E. reflexivity.
 Qed.
 
 Lemma hci_loop_same_but rec imps :
@@ -965,18 +901,6 @@ Lemma has_compiled_import_r_same_but fuel : forall t k, same_but no_tc t (fst (h
 Proof.
   induction fuel as [|fuel IH]; intros t k; cbn [has_compiled_import_r]; [apply same_but_out_of_fuel|].
   destruct (find_mod k (mods t)); [|apply same_but_refl]. apply hci_loop_same_but. exact IH.
-Qed.
-
-(* _lys_set_implemented changes implemented / features / to_compile at most *)
-Lemma set_implemented_same_but t k sel : same_but nrm_B t (fst (set_implemented t k sel)).
-Proof.
-  destruct (set_implemented_cases t k sel) as [| |m fs F Hi Hs|m fs F Hi Hs]; cbn [fst]; try apply same_but_refl.
-  - apply same_but_upd. intros x. destruct x; reflexivity.
-  - eapply (same_but_trans nrm_B _ (with_implementing (implementing t ++ [k])
-                                       (upd_s k (fun m => set_tc true (set_impl true (set_feats fs m))) t))).
-    + eapply (same_but_trans nrm_B _ (upd_s k (fun m => set_tc true (set_impl true (set_feats fs m))) t));
-        [apply same_but_upd; intros x; destruct x; reflexivity|apply same_but_implementing].
-    + apply (same_but_weaken no_tc nrm_B); [intros x; destruct x; reflexivity|apply has_compiled_import_r_same_but].
 Qed.
 
 (* ------------------------------------------------------------------------------------------------ *)
@@ -1060,7 +984,7 @@ Proof.
 Qed.
 
 Lemma same_but_sym N t t' : same_but N t t' -> same_but N t' t.
-Proof. intros [E1 E2 E3]. constructor; congruence. Qed.
+Proof. intros [E1 E2 E3 E4]. constructor; congruence. Qed.
 
 (* the abstract compiled schema only reads features, imports and keys *)
 Lemma snapshot_ext l l' m m' :
@@ -1342,8 +1266,6 @@ Proof.
   constructor; cbn [with_mods explicit creating implementing mods].
   - apply (qi_expl _ _ _ _ Q2).
   - rewrite map_length. apply (qi_len _ _ _ _ Q2).
-  - unfold news_of. cbn [with_mods mods]. rewrite skipn_map. fold (news_of s t2). unfold keys. rewrite map_map.
-    rewrite (map_ext _ mkey Hhk). apply (qi_creating _ _ _ _ Q2).
   - unfold keys. rewrite map_map. rewrite (map_ext _ mkey Hhk). apply (qi_nodup _ _ _ _ Q2).
   - unfold olds_of. cbn [with_mods mods]. rewrite firstn_map. fold (olds_of s t2).
     apply Forall2_map_r_in; [apply (qi_olds _ _ _ _ Q2)|]. intros m0 m' H0 H' Hr. unfold h.
@@ -1364,5 +1286,1137 @@ Proof.
     rewrite (old_snapshot s imp D t2 m0 m' W Q2 F2 H0 Hr Hfe).
     assert (Him0 : m_impl m0 = true) by (destruct (R7 (R9 Htc)) as [E|E]; [exact E|contradiction]).
     destruct (wf_comp_impl _ _ (wfs_mods _ W m0 H0) Him0) as [E _]. symmetry. exact E.
-  - apply (qi_imp _ _ _ _ Q2).
 Qed.
+
+Lemma compile_all_QI s imp D : wf_state s -> forall dss t,
+  QI s imp D t -> FE s t -> (forall ds, In ds dss -> incl ds D) ->
+  QI s imp D (fst (compile_all dss t)) /\ same_but no_tc_comp t (fst (compile_all dss t)).
+Proof.
+  intros W. induction dss as [|ds dss IH]; intros t Q F Hd; cbn [compile_all].
+  - cbn [fst]. split; [exact Q|apply same_but_refl].
+  - destruct (negb (depset_check_features ds t)); [cbn [fst]; split; [exact Q|apply same_but_refl]|].
+    destruct (depset_r_QI s imp D ds t W Q F (Hd ds (or_introl eq_refl))) as [Q1 S1].
+    destruct (depset_r ds t) as [t1 ok]. cbn [fst] in Q1, S1.
+    destruct (negb ok); [cbn [fst]; split; assumption|].
+    destruct (IH t1 Q1 (FE_same_but s t t1 S1 F) (fun ds' H => Hd ds' (or_intror H))) as [Q2 S2].
+    split; [exact Q2|eapply same_but_trans; eassumption].
+Qed.
+
+(* ------------------------------------------------------------------------------------------------ *)
+(* nothing marked: nothing is compiled                                                              *)
+(* ------------------------------------------------------------------------------------------------ *)
+Definition none_tc (t : state) : Prop := forall m, In m (mods t) -> m_tc m = false.
+
+Lemma none_tc_find t k m : none_tc t -> find_mod k (mods t) = Some m -> m_tc m = false.
+Proof. intros H F. apply H. apply (find_mod_In _ _ _ F). Qed.
+
+Lemma mark_depset_none ds t : none_tc t -> mark_depset ds t = t.
+Proof.
+  intros H. unfold mark_depset.
+  replace (existsb _ ds) with false; [reflexivity|]. symmetry. apply not_true_is_false. intros E.
+  apply existsb_exists in E. destruct E as [k [_ Hk]]. destruct (find_mod k (mods t)) as [m|] eqn:F; [|discriminate].
+  rewrite (none_tc_find t k m H F) in Hk. discriminate.
+Qed.
+
+Lemma none_tc_out_of_fuel t : none_tc t -> none_tc (out_of_fuel t).
+Proof. intros H. exact H. Qed.
+
+Lemma dep_sets_loop_none fuel target : forall t cs main, none_tc t ->
+  none_tc (fst (dep_sets_loop fuel t target cs main)).
+Proof.
+  induction fuel as [|fuel IH]; intros t cs main H; cbn [dep_sets_loop]; [exact H|].
+  destruct cs as [|c0 cs']; [exact H|].
+  destruct (dep_dfs _ t _ _) as [[[cs1 ds] aux] oof].
+  assert (H1 : none_tc (if oof then out_of_fuel t else t)) by (destruct oof; exact H).
+  rewrite (mark_depset_none ds _ H1). destruct target; [exact H1|]. apply IH. exact H1.
+Qed.
+
+Lemma dep_sets_create_none t target : none_tc t -> none_tc (fst (dep_sets_create t target)).
+Proof.
+  intros H. unfold dep_sets_create. destruct (create_single _ t 0 _ []) as [cs1 main1].
+  destruct target as [k|]; [destruct (negb (kmem k cs1)); [exact H|]|]; apply dep_sets_loop_none; exact H.
+Qed.
+
+Lemma compile_mods_none : forall ds t done, none_tc t -> compile_mods ds t done = (t, done, true).
+Proof.
+  induction ds as [|k ds IH]; intros t done H; cbn [compile_mods]; [reflexivity|].
+  destruct (find_mod k (mods t)) as [m|] eqn:F; [|apply IH; exact H].
+  rewrite (none_tc_find t k m H F). cbn [negb]. apply IH. exact H.
+Qed.
+
+Lemma fold_set_tc_false_none ds t : none_tc t -> mods (fold_left (fun s k => upd_s k (set_tc false) s) ds t) = mods t.
+Proof.
+  intros H. rewrite (fold_upd_mods (set_tc false)) by reflexivity. cbn [with_mods mods].
+  rewrite <- (map_id (mods t)) at 2. apply map_ext_in. intros m Hm. destruct (kmem (mkey m) ds); [|reflexivity].
+  pose proof (H m Hm) as E. destruct m. cbn in *. subst. reflexivity.
+Qed.
+
+Lemma compile_all_none : forall dss t, none_tc t ->
+  snd (compile_all dss t) = true /\ none_tc (fst (compile_all dss t)) /\ evs (fst (compile_all dss t)) = evs t.
+Proof.
+  induction dss as [|ds dss IH]; intros t H; cbn [compile_all]; [cbn; tauto|].
+  assert (Hc : depset_check_features ds t = true).
+  { unfold depset_check_features. apply forallb_forall. intros k _. destruct (find_mod k (mods t)) as [m|] eqn:F; [|reflexivity].
+    rewrite (none_tc_find t k m H F). reflexivity. }
+  rewrite Hc. cbn [negb]. unfold depset_r. rewrite (compile_mods_none ds t [] H). cbn [negb existsb prune_mods].
+  set (t1 := fold_left (fun s k => upd_s k (set_tc false) s) ds t).
+  assert (H1 : none_tc t1).
+  { intros m Hm. unfold t1 in Hm. rewrite (fold_set_tc_false_none ds t H) in Hm. apply H. exact Hm. }
+  assert (E1 : evs t1 = evs t).
+  { unfold t1. rewrite (fold_upd_mods (set_tc false)) by reflexivity. reflexivity. }
+  destruct (IH t1 H1) as [A [B C]]. rewrite E1 in C. tauto.
+Qed.
+
+(* ------------------------------------------------------------------------------------------------ *)
+(* recompilation of modules that compile: lys_compile_depset_all succeeds and clears the marks      *)
+(* ------------------------------------------------------------------------------------------------ *)
+Definition healthy (t : state) : Prop := forall m, In m (mods t) -> m_tc m = true -> compiles_ok m = true.
+
+Lemma in_map_eq {A B} (N : A -> B) l l' a' : map N l' = map N l -> In a' l' -> exists a, In a l /\ N a' = N a.
+Proof.
+  revert l'. induction l as [|a l IH]; intros [|b l'] H Hin; cbn in H; try discriminate; [contradiction|].
+  inversion H as [[H1 H2]]. destruct Hin as [<-|Hin].
+  - exists a. split; [left; reflexivity|exact H1].
+  - destruct (IH l' H2 Hin) as [x [Hx E]]. exists x. split; [right; exact Hx|exact E].
+Qed.
+
+Lemma compiles_ok_no_comp a b : no_comp a = no_comp b -> compiles_ok a = compiles_ok b /\ m_tc a = m_tc b.
+Proof.
+  intros E. pose proof (f_equal m_feats E) as E1. pose proof (f_equal m_cfault E) as E2. pose proof (f_equal m_tc E) as E3.
+  cbn in E1, E2, E3. unfold compiles_ok, node_fault, leafref_fault, key_fault. rewrite E1, E2. split; [reflexivity|exact E3].
+Qed.
+
+Lemma healthy_same t t' : same_but no_comp t t' -> healthy t -> healthy t'.
+Proof.
+  intros S H m' Hin Htc. destruct (in_map_eq no_comp _ _ m' (sb_mods _ _ _ S) Hin) as [m [Hm E]].
+  destruct (compiles_ok_no_comp m' m E) as [E1 E2]. rewrite E1. apply H; [exact Hm|congruence].
+Qed.
+
+Lemma compiles_ok_parts m : compiles_ok m = true ->
+  check_features (m_feats m) = true /\ node_fault m = false /\ leafref_fault m = false /\ key_fault m = false.
+Proof.
+  unfold compiles_ok. rewrite !andb_true_iff, !negb_true_iff. tauto.
+Qed.
+
+Lemma compile_mods_ok : forall ds t done, healthy t -> snd (compile_mods ds t done) = true.
+Proof.
+  induction ds as [|k ds IH]; intros t done H; cbn [compile_mods]; [reflexivity|].
+  destruct (find_mod k (mods t)) as [m|] eqn:F; [|apply IH; exact H].
+  destruct (negb (m_tc m)) eqn:Etc; [apply IH; exact H|]. apply negb_false_iff in Etc.
+  destruct (compiles_ok_parts m (H m (proj1 (find_mod_In _ _ _ F)) Etc)) as [_ [Hn _]]. rewrite Hn.
+  apply IH. eapply healthy_same; [|exact H].
+  eapply same_but_trans; [eapply same_but_trans; [apply same_but_upd|apply same_but_add_ev]|apply same_but_upd];
+    intros x; destruct x; reflexivity.
+Qed.
+
+Lemma prune_mods_ok : forall done t, healthy t -> all_tc t done -> snd (prune_mods done t) = true.
+Proof.
+  induction done as [|k done IH]; intros t H Ht; cbn [prune_mods]; [reflexivity|].
+  assert (Ht' : all_tc t done) by (intros k' m' Hin; apply Ht; right; exact Hin).
+  destruct (find_mod k (mods t)) as [m|] eqn:F; [|apply IH; assumption].
+  assert (Etc : m_tc m = true) by (apply (Ht k m); [left; reflexivity|exact F]).
+  destruct (compiles_ok_parts m (H m (proj1 (find_mod_In _ _ _ F)) Etc)) as [_ [_ [_ Hk]]].
+  unfold key_fault in Hk. rewrite Hk.
+  assert (S : same_but no_comp t (upd_s k (set_comp (Some (snapshot (mods t) m))) t))
+    by (apply same_but_upd; intros x; destruct x; reflexivity).
+  apply IH; [eapply healthy_same; eassumption|eapply all_tc_same; eassumption].
+Qed.
+
+(* after a successful round no module of the dep set is marked; no mark appears anywhere *)
+Definition tc_le (t t' : state) : Prop :=
+  forall k m', find_mod k (mods t') = Some m' -> m_tc m' = true -> exists m, find_mod k (mods t) = Some m /\ m_tc m = true.
+
+Lemma tc_le_refl t : tc_le t t.
+Proof. intros k m F H. exists m. tauto. Qed.
+Lemma tc_le_trans t1 t2 t3 : tc_le t1 t2 -> tc_le t2 t3 -> tc_le t1 t3.
+Proof. intros A B k m F H. destruct (B k m F H) as [m2 [F2 H2]]. apply (A k m2 F2 H2). Qed.
+
+Lemma depset_r_ok s D ds t :
+  QI s [] D t -> healthy t -> incl ds D ->
+  snd (depset_r ds t) = true /\ healthy (fst (depset_r ds t)) /\ tc_le t (fst (depset_r ds t)) /\
+  (forall k m, In k ds -> find_mod k (mods (fst (depset_r ds t))) = Some m -> m_tc m = false).
+Proof.
+  intros Q H Hd. unfold depset_r.
+  pose proof (compile_mods_QI s [] D ds t [] Q Hd) as C. cbv zeta in C.
+  pose proof (compile_mods_ok ds t [] H) as Cok.
+  destruct (compile_mods ds t []) as [[t1 done] ok]. cbn [fst snd] in C, Cok. subst ok. cbn [negb].
+  destruct C as [Q1 [S1 [T1 [I1 _]]]]; [intros k m []|].
+  assert (H1 : healthy t1) by (eapply healthy_same; eassumption).
+  assert (Hl : existsb (fun k => match find_mod k (mods t1) with Some m => leafref_fault m | None => false end) done = false).
+  { apply not_true_is_false. intros E. apply existsb_exists in E. destruct E as [k [Hk E]].
+    destruct (find_mod k (mods t1)) as [m|] eqn:F; [|discriminate].
+    destruct (compiles_ok_parts m (H1 m (proj1 (find_mod_In _ _ _ F)) (T1 k m Hk F))) as [_ [_ [Hlf _]]]. congruence. }
+  rewrite Hl.
+  assert (Hdd : incl done D) by (intros x Hx; apply Hd; apply I1 in Hx; exact Hx).
+  pose proof (prune_mods_QI s [] D done t1 Q1 Hdd T1) as P. cbv zeta in P.
+  pose proof (prune_mods_ok done t1 H1 T1) as Pok.
+  destruct (prune_mods done t1) as [t2 ok2]. cbn [fst snd] in P, Pok. subst ok2. cbn [negb fst snd].
+  destruct P as [Q2 [S2 _]].
+  assert (S12 : same_but no_comp t t2) by (eapply same_but_trans; eassumption).
+  assert (H2 : healthy t2) by (eapply healthy_same; eassumption).
+  rewrite (fold_upd_mods (set_tc false)) by reflexivity. cbn [with_mods mods].
+  set (h := fun m => if kmem (mkey m) ds then set_tc false m else m).
+  assert (Hhk : forall m, mkey (h m) = mkey m) by (intros m; unfold h; destruct (kmem (mkey m) ds); reflexivity).
+  assert (Hfind : forall k, find_mod k (map h (mods t2)) = option_map h (find_mod k (mods t2))).
+  { intros k. unfold find_mod. induction (mods t2) as [|x l IHl]; cbn [map find option_map]; [reflexivity|].
+    rewrite Hhk. destruct (key_eqb (mkey x) k); [reflexivity|exact IHl]. }
+  split; [reflexivity|]. split; [|split].
+  - intros m' Hin Htc. apply in_map_iff in Hin. destruct Hin as [m [<- Hm]]. unfold h in *.
+    destruct (kmem (mkey m) ds); [discriminate Htc|]. apply H2; assumption.
+  - intros k m' F Htc. rewrite Hfind in F. destruct (find_mod k (mods t2)) as [m2|] eqn:F2; [|discriminate].
+    cbn [option_map] in F. inversion F; subst m'. unfold h in Htc. destruct (kmem (mkey m2) ds); [discriminate Htc|].
+    destruct (same_but_find no_comp t t2 k m2) as [m [Fm E]]; [intros x; destruct x; reflexivity|exact S12|exact F2|].
+    exists m. split; [exact Fm|]. rewrite <- Htc. exact (eq_sym (f_equal m_tc E)).
+  - intros k m' Hk F. rewrite Hfind in F. destruct (find_mod k (mods t2)) as [m2|] eqn:F2; [|discriminate].
+    cbn [option_map] in F. inversion F; subst m'. unfold h.
+    assert (Ek : mkey m2 = k) by (apply (find_mod_In _ _ _ F2)). rewrite Ek.
+    apply kmem_In in Hk. rewrite Hk. reflexivity.
+Qed.
+
+Lemma compile_all_ok s D : wf_state s -> forall dss t,
+  QI s [] D t -> FE s t -> healthy t -> (forall ds, In ds dss -> incl ds D) ->
+  snd (compile_all dss t) = true /\ tc_le t (fst (compile_all dss t)) /\
+  (forall k m, In k (concat dss) -> find_mod k (mods (fst (compile_all dss t))) = Some m -> m_tc m = false).
+Proof.
+  intros W. induction dss as [|ds dss IH]; intros t Q F H Hd; cbn [compile_all].
+  - cbn [fst snd concat]. split; [reflexivity|]. split; [apply tc_le_refl|]. intros k m [].
+  - assert (Hc : depset_check_features ds t = true).
+    { unfold depset_check_features. apply forallb_forall. intros k _. destruct (find_mod k (mods t)) as [m|] eqn:Fm; [|reflexivity].
+      destruct (m_tc m) eqn:Etc; [|reflexivity]. cbn [negb orb].
+      apply (compiles_ok_parts m (H m (proj1 (find_mod_In _ _ _ Fm)) Etc)). }
+    rewrite Hc. cbn [negb].
+    assert (Hds : incl ds D) by (apply Hd; left; reflexivity).
+    destruct (depset_r_ok s D ds t Q H Hds) as [A1 [A2 [A3 A4]]].
+    destruct (depset_r_QI s [] D ds t W Q F Hds) as [Q1 S1].
+    destruct (depset_r ds t) as [t1 ok]. cbn [fst snd] in *. subst ok. cbn [negb].
+    destruct (IH t1 Q1 (FE_same_but s t t1 S1 F) A2 (fun ds' Hin => Hd ds' (or_intror Hin))) as [B1 [B2 B3]].
+    split; [exact B1|]. split; [eapply tc_le_trans; eassumption|].
+    intros k m Hin Fm. cbn [concat] in Hin. apply in_app_or in Hin. destruct Hin as [Hin|Hin]; [|apply (B3 k m Hin Fm)].
+    destruct (m_tc m) eqn:Etc; [|reflexivity]. destruct (B2 k m Fm Etc) as [m1 [F1 E1]].
+    rewrite (A4 k m1 Hin F1) in E1. discriminate.
+Qed.
+
+(* ------------------------------------------------------------------------------------------------ *)
+(* removing the created modules (ly_set_rm moves the last item into the hole)                       *)
+(* ------------------------------------------------------------------------------------------------ *)
+Lemma index_of_app_r k l1 l2 : ~ In k l1 -> index_of k (l1 ++ l2) = option_map (Nat.add (length l1)) (index_of k l2).
+Proof.
+  induction l1 as [|x l1 IH]; intros H; cbn [app index_of length].
+  - destruct (index_of k l2); reflexivity.
+  - assert (E : key_eqb x k = false) by (apply key_eqb_neq; intros ->; apply H; left; reflexivity).
+    rewrite E, IH by (intros Hin; apply H; right; exact Hin).
+    destruct (index_of k l2); reflexivity.
+Qed.
+
+Lemma map_last' {A B} (f : A -> B) l x : f (last l x) = last (map f l) (f x).
+Proof.
+  induction l as [|y l IH]; [reflexivity|]. cbn [last map]. destruct l as [|z l]; [reflexivity|]. exact IH.
+Qed.
+Lemma map_removelast' {A B} (f : A -> B) l : map f (removelast l) = removelast (map f l).
+Proof.
+  induction l as [|y l IH]; [reflexivity|]. cbn [removelast map]. destruct l as [|z l]; [reflexivity|].
+  cbn [map] in *. f_equal. exact IH.
+Qed.
+
+Lemma rm_index_map {A B} (f : A -> B) i l : map f (rm_index i l) = rm_index i (map f l).
+Proof.
+  revert i. induction l as [|x l IH]; intros [|i]; cbn [rm_index map]; try reflexivity.
+  - destruct l as [|y l]; [reflexivity|]. cbn [map]. f_equal.
+    + apply (map_last' f (y :: l) x).
+    + apply (map_removelast' f (y :: l)).
+  - f_equal. apply IH.
+Qed.
+
+Lemma NoDup_app_not_l {A} (l1 l2 : list A) x : NoDup (l1 ++ l2) -> In x l2 -> ~ In x l1.
+Proof.
+  induction l1 as [|y l1 IH]; cbn [app]; intros H Hin; [tauto|]. inversion H as [|? ? Hy H']; subst.
+  intros [->|Hx]; [apply Hy; apply in_or_app; right; exact Hin|apply (IH H' Hin Hx)].
+Qed.
+
+Lemma rm_mod_app_new olds news k :
+  ~ In k (keys olds) -> In k (keys news) ->
+  exists news', rm_mod k (olds ++ news) = olds ++ news' /\ Permutation (k :: keys news') (keys news).
+Proof.
+  intros Ho Hn. unfold rm_mod. unfold keys in *. rewrite map_app, index_of_app_r by exact Ho.
+  destruct (index_of k (map mkey news)) as [j|] eqn:E; [|apply index_of_None in E; contradiction].
+  cbn [option_map]. rewrite map_length. apply index_of_Some in E.
+  assert (Hj : (j < length news)%nat).
+  { rewrite <- (map_length mkey). apply nth_error_Some. congruence. }
+  exists (rm_index j news). split; [apply rm_index_app_r'; exact Hj|].
+  rewrite rm_index_map. apply rm_index_perm. exact E.
+Qed.
+
+Lemma rm_key_keeps k ds x : x <> k -> In x ds -> In x (rm_key k ds).
+Proof.
+  intros Hne Hin. unfold rm_key. destruct (index_of k ds) as [i|] eqn:E; [|exact Hin].
+  apply index_of_Some in E. pose proof (rm_index_perm i ds k E) as P.
+  apply Permutation_sym in P. apply (Permutation_in _ P) in Hin. destruct Hin as [->|Hin]; [contradiction|exact Hin].
+Qed.
+
+Lemma rm_from_depsets_keeps k : forall dss x, x <> k -> In x (concat dss) -> In x (concat (rm_from_depsets k dss)).
+Proof.
+  induction dss as [|ds dss IH]; intros x Hne Hin; cbn [rm_from_depsets concat] in *; [exact Hin|].
+  apply in_app_or in Hin. destruct (kmem k ds); cbn [concat]; apply in_or_app.
+  - destruct Hin as [Hin|Hin]; [left; apply rm_key_keeps; assumption|right; exact Hin].
+  - destruct Hin as [Hin|Hin]; [left; exact Hin|right; apply IH; assumption].
+Qed.
+
+Definition rm_step (a : state * list (list key)) (k : key) : state * list (list key) :=
+  (with_mods (rm_mod k (mods (fst a))) (fst a), rm_from_depsets k (snd a)).
+
+Lemma remove_created olds : forall ks news t dss,
+  mods t = olds ++ news -> Permutation ks (keys news) -> NoDup (keys (olds ++ news)) ->
+  let r := fold_left rm_step ks (t, dss) in
+  fst r = with_mods olds t /\ (forall x, ~ In x ks -> In x (concat dss) -> In x (concat (snd r))).
+Proof.
+  induction ks as [|k ks IH]; intros news t dss Hm Hp Hnd; cbn [fold_left].
+  - cbn [fst snd]. apply Permutation_nil in Hp. destruct news; [|discriminate]. rewrite app_nil_r in Hm.
+    split; [|intros x _ H; exact H]. rewrite <- Hm. destruct t; reflexivity.
+  - assert (Hk : In k (keys news)) by (apply (Permutation_in _ Hp); left; reflexivity).
+    assert (Hko : ~ In k (keys olds)).
+    { unfold keys in *. rewrite map_app in Hnd. apply (NoDup_app_not_l _ _ k Hnd Hk). }
+    destruct (rm_mod_app_new olds news k Hko Hk) as [news' [E P]].
+    assert (Es : rm_step (t, dss) k = (with_mods (olds ++ news') t, rm_from_depsets k dss))
+      by (unfold rm_step; cbn [fst snd]; rewrite Hm, E; reflexivity).
+    rewrite Es.
+    assert (Hp' : Permutation ks (keys news')).
+    { apply (Permutation_cons_inv (a := k)). eapply perm_trans; [exact Hp|apply Permutation_sym; exact P]. }
+    assert (Hnd' : NoDup (keys (olds ++ news'))).
+    { unfold keys in *. rewrite map_app in *.
+      assert (P2 : Permutation (map mkey olds ++ k :: map mkey news') (map mkey olds ++ map mkey news))
+        by (apply Permutation_app_head; exact P).
+      apply Permutation_sym in P2. pose proof (Permutation_NoDup P2 Hnd) as H. apply NoDup_remove_1 in H. exact H. }
+    destruct (IH news' (with_mods (olds ++ news') t) (rm_from_depsets k dss) eq_refl Hp' Hnd') as [A B].
+    split; [rewrite A; reflexivity|].
+    intros x Hx Hin. apply B; [intros H; apply Hx; right; exact H|].
+    apply rm_from_depsets_keeps; [intros Heq; apply Hx; left; symmetry; exact Heq|exact Hin].
+Qed.
+
+(* ------------------------------------------------------------------------------------------------ *)
+(* observable equality                                                                              *)
+(* ------------------------------------------------------------------------------------------------ *)
+Record frel (m m' : modl) : Prop := {
+  fr_key : mkey m' = mkey m;
+  fr_impl : m_impl m' = m_impl m;
+  fr_feats : m_feats m' = m_feats m;
+  fr_comp : m_comp m' = m_comp m;
+  fr_latest : m_latest m' = m_latest m }.
+
+Lemma Forall2_skipn {A B} (R : A -> B -> Prop) n : forall l l', Forall2 R l l' -> Forall2 R (skipn n l) (skipn n l').
+Proof.
+  induction n as [|n IH]; intros l l' F; [exact F|]. destruct F; [constructor|]. cbn [skipn]. apply IH. exact F.
+Qed.
+
+Lemma find_Forall2 {A} (R : A -> A -> Prop) (p : A -> bool) l l' :
+  Forall2 R l l' -> (forall a b, R a b -> p b = p a) ->
+  match find p l, find p l' with
+  | Some a, Some b => R a b
+  | None, None => True
+  | _, _ => False
+  end.
+Proof.
+  intros F Hp. induction F as [|a b l l' H F IH]; cbn [find]; [exact I|].
+  rewrite (Hp a b H). destruct (p a); [exact H|exact IH].
+Qed.
+
+Lemma mkey_parts m m' : mkey m' = mkey m -> m_name m' = m_name m /\ m_rev m' = m_rev m.
+Proof. unfold mkey. intros H. inversion H. tauto. Qed.
+
+Lemma obs_frel s s' : Forall2 frel (mods s) (mods s') -> obs s' = obs s.
+Proof.
+  intros F. unfold obs.
+  assert (Fu : Forall2 frel (user_mods s) (user_mods s')) by (apply Forall2_skipn; exact F).
+  assert (E1 : map omod_of (user_mods s') = map omod_of (user_mods s)).
+  { apply Forall2_map_eq. eapply Forall2_impl; [|exact Fu]. intros a b [K I Fe C L].
+    destruct (mkey_parts _ _ K) as [K1 K2]. unfold omod_of. rewrite K1, K2, I, Fe, C. reflexivity. }
+  assert (E2 : map (fun n => option_map m_rev (get_latest n (mods s'))) names
+               = map (fun n => option_map m_rev (get_latest n (mods s))) names).
+  { apply map_ext. intros n. unfold get_latest.
+    pose proof (find_Forall2 frel (fun m => (m_name m =? n) && m_latest m) _ _ F) as H.
+    destruct (find _ (mods s)) as [a|], (find _ (mods s')) as [b|]; cbn [option_map].
+    - destruct H as [K _ _ _ _]; [|destruct (mkey_parts _ _ K) as [_ K2]; rewrite K2; reflexivity].
+      intros a' b' [K' _ _ _ L']. destruct (mkey_parts _ _ K') as [K1 _]. rewrite K1, L'. reflexivity.
+    - exfalso. apply H. intros a' b' [K' _ _ _ L']. destruct (mkey_parts _ _ K') as [K1 _]. rewrite K1, L'. reflexivity.
+    - exfalso. apply H. intros a' b' [K' _ _ _ L']. destruct (mkey_parts _ _ K') as [K1 _]. rewrite K1, L'. reflexivity.
+    - reflexivity. }
+  assert (E3 : map (fun n => option_map m_rev (get_implemented n (mods s'))) names
+               = map (fun n => option_map m_rev (get_implemented n (mods s))) names).
+  { apply map_ext. intros n. unfold get_implemented.
+    pose proof (find_Forall2 frel (fun m => (m_name m =? n) && m_impl m) _ _ F) as H.
+    destruct (find _ (mods s)) as [a|], (find _ (mods s')) as [b|]; cbn [option_map].
+    - destruct H as [K _ _ _ _]; [|destruct (mkey_parts _ _ K) as [_ K2]; rewrite K2; reflexivity].
+      intros a' b' [K' I' _ _ _]. destruct (mkey_parts _ _ K') as [K1 _]. rewrite K1, I'. reflexivity.
+    - exfalso. apply H. intros a' b' [K' I' _ _ _]. destruct (mkey_parts _ _ K') as [K1 _]. rewrite K1, I'. reflexivity.
+    - exfalso. apply H. intros a' b' [K' I' _ _ _]. destruct (mkey_parts _ _ K') as [K1 _]. rewrite K1, I'. reflexivity.
+    - reflexivity. }
+  assert (E4 : hash_fields s' = hash_fields s).
+  { unfold hash_fields. apply Forall2_map_eq. eapply Forall2_impl; [|exact Fu]. intros x y [K' I' Fe' _ _].
+    destruct (mkey_parts _ _ K') as [K1' K2']. rewrite K1', K2', I', Fe'. reflexivity. }
+  rewrite E1, E2, E3, E4. reflexivity.
+Qed.
+
+(* ------------------------------------------------------------------------------------------------ *)
+(* lys_unres_glob_revert                                                                            *)
+(* ------------------------------------------------------------------------------------------------ *)
+Definition PE {X} (f : modl -> X) (s t : state) : Prop :=
+  Forall2 (fun m m' => mkey m' = mkey m /\ f m' = f m) (mods s) (olds_of s t).
+Definition LE : state -> state -> Prop := PE m_latest.
+
+Lemma PE_same_but {X} (f : modl -> X) N s t t' :
+  (forall m, f (N m) = f m) -> (forall m, mkey (N m) = mkey m) -> same_but N t t' -> PE f s t -> PE f s t'.
+Proof.
+  intros Hf Hk S F. unfold PE in *.
+  assert (E : map (fun m => (mkey m, f m)) (olds_of s t') = map (fun m => (mkey m, f m)) (olds_of s t)).
+  { unfold olds_of. rewrite <- !firstn_map. f_equal.
+    assert (G : forall l, map (fun m => (mkey m, f m)) l = map (fun m => (mkey m, f m)) (map N l)).
+    { intros l. rewrite map_map. apply map_ext. intros m. rewrite Hf, Hk. reflexivity. }
+    rewrite G, (sb_mods _ _ _ S), <- G. reflexivity. }
+  assert (F1 : Forall2 (fun a b => (mkey b, f b) = (mkey a, f a)) (mods s) (olds_of s t)).
+  { eapply Forall2_impl; [|exact F]. cbn. intros a b [H1 H2]. congruence. }
+  apply Forall2_map_eq in F1. rewrite <- E in F1. apply Forall2_map_eq in F1.
+  eapply Forall2_impl; [|exact F1]. cbn. intros a b H. split; [exact (f_equal fst H)|exact (f_equal snd H)].
+Qed.
+
+Definition unimpl (m : modl) : modl := set_tc false (set_comp None (set_impl false m)).
+
+Lemma compiles_ok_ext m m' : m_feats m' = m_feats m -> m_cfault m' = m_cfault m -> compiles_ok m' = compiles_ok m.
+Proof. intros E1 E2. unfold compiles_ok, node_fault, leafref_fault, key_fault. rewrite E1, E2. reflexivity. Qed.
+
+Lemma Forall2_3 {A B} (R1 R2 R3 : A -> B -> Prop) l l' :
+  Forall2 R1 l l' -> Forall2 R2 l l' -> Forall2 R3 l l' -> Forall2 (fun a b => R1 a b /\ R2 a b /\ R3 a b) l l'.
+Proof. intros F1 F2 F3. apply Forall2_conj; [exact F1|apply Forall2_conj; assumption]. Qed.
+
+Lemma Forall2_map_r_gen {A B} (R R' : A -> B -> Prop) (h : B -> B) l l' :
+  Forall2 R l l' -> (forall a b, R a b -> R' a (h b)) -> Forall2 R' l (map h l').
+Proof. intros F H. induction F; cbn [map]; constructor; auto. Qed.
+
+Lemma Forall2_with_In_r {A B} (R : A -> B -> Prop) l l' :
+  Forall2 R l l' -> Forall2 (fun a b => In b l' /\ R a b) l l'.
+Proof.
+  intros F. induction F as [|x y l l' H F IH]; constructor.
+  - split; [left; reflexivity|exact H].
+  - eapply Forall2_impl; [|exact IH]. cbn. intros a b [H1 H2]. split; [right; exact H1|exact H2].
+Qed.
+
+Lemma revert_restores s imp dss mid :
+  wf_state s -> QI s imp (concat dss) mid -> FE s mid -> LE s mid ->
+  implementing mid = imp -> creating mid = keys (news_of s mid) -> (imp = [] -> dss = []) ->
+  Forall2 frel (mods s) (mods (erase (revert mid dss))).
+Proof.
+  intros W Q F L Himp Hcr Hnil.
+  pose proof (qi_nodup _ _ _ _ Q) as Hnd. pose proof (qi_len _ _ _ _ Q) as Hlen.
+  unfold revert. rewrite Himp.
+  change (fun s0 k => upd_s k (fun m => set_tc false (set_comp None (set_impl false m))) s0)
+    with (fun s0 k => upd_s k unimpl s0).
+  rewrite (fold_upd_mods unimpl) by reflexivity.
+  set (h1 := fun m => if kmem (mkey m) imp then unimpl m else m).
+  assert (Hh1k : forall m, mkey (h1 m) = mkey m) by (intros m; unfold h1; destruct (kmem (mkey m) imp); reflexivity).
+  set (s1 := with_mods (map h1 (mods mid)) mid).
+  change (fun (a : state * list (list key)) k => (with_mods (rm_mod k (mods (fst a))) (fst a), rm_from_depsets k (snd a)))
+    with rm_step.
+  assert (Hm1 : mods s1 = map h1 (olds_of s mid) ++ map h1 (news_of s mid)).
+  { unfold s1. cbn [with_mods mods]. rewrite (olds_news s mid) at 1. apply map_app. }
+  assert (Hk1 : keys (map h1 (news_of s mid)) = keys (news_of s mid)).
+  { unfold keys. rewrite map_map. apply map_ext. exact Hh1k. }
+  assert (Hko : keys (map h1 (olds_of s mid)) = keys (olds_of s mid)).
+  { unfold keys. rewrite map_map. apply map_ext. exact Hh1k. }
+  assert (Hnd1 : NoDup (keys (map h1 (olds_of s mid) ++ map h1 (news_of s mid)))).
+  { unfold keys in *. rewrite map_app, Hk1, Hko, <- map_app, <- (olds_news s mid). exact Hnd. }
+  assert (Hperm : Permutation (creating s1) (keys (map h1 (news_of s mid)))).
+  { unfold s1. cbn [with_mods creating]. rewrite Hcr, Hk1. apply Permutation_refl. }
+  pose proof (remove_created (map h1 (olds_of s mid)) (creating s1) (map h1 (news_of s mid)) s1 dss Hm1 Hperm Hnd1) as R.
+  cbv zeta in R. destruct (fold_left rm_step (creating s1) (s1, dss)) as [s2 dss2]. cbn [fst snd] in R.
+  destruct R as [Es2 Hkeep]. subst s2.
+  set (s2 := with_mods (map h1 (olds_of s mid)) s1).
+  (* the pairs *)
+  pose proof (Forall2_with_In _ _ _ (Forall2_3 _ _ _ _ _ (qi_olds _ _ _ _ Q) F L)) as FA.
+  assert (Hlen2 : length (mods s2) = length (mods s)).
+  { unfold s2. cbn [with_mods mods]. rewrite map_length. symmetry. apply (Forall2_length' _ _ _ (qi_olds _ _ _ _ Q)). }
+  assert (Holds2 : olds_of s s2 = mods s2) by (unfold olds_of; rewrite <- Hlen2; apply firstn_all).
+  assert (Hnew : forall m0, In m0 (mods s) -> ~ In (mkey m0) (creating s1)).
+  { intros m0 H0. unfold s1. cbn [with_mods creating]. rewrite Hcr. rewrite (olds_news s mid) in Hnd.
+    unfold keys in Hnd. rewrite map_app in Hnd. intros Hin. apply (NoDup_app_not_l _ _ _ Hnd Hin).
+    fold (keys (olds_of s mid)). rewrite (keys_olds_Q s imp _ mid Q). apply in_map. exact H0. }
+  assert (FU : Forall2 (fun m0 m'' => In m0 (mods s) /\ qrel [] (concat dss2) m0 m'' /\ m_feats m'' = m_feats m0 /\
+                                      m_latest m'' = m_latest m0 /\ (imp = [] -> m_comp m'' = m_comp m0))
+                       (mods s) (mods s2)).
+  { unfold s2. cbn [with_mods mods]. eapply Forall2_map_r_gen; [exact FA|]. cbn.
+    intros m0 m' [H0 [Hr [[_ Hf] [_ Hl]]]]. pose proof (wfs_mods _ W m0 H0) as Wm.
+    destruct Hr as [R1 R2 R3 R4 R5 R6 R7 R8 R9 R10]. unfold h1.
+    destruct (kmem (mkey m') imp) eqn:Ek.
+    - apply kmem_In in Ek. rewrite R1 in Ek. pose proof (R8 Ek) as Hi0.
+      split; [exact H0|]. split; [|split; [exact Hf|split; [exact Hl|]]].
+      + constructor; cbn; try assumption; try discriminate.
+        * intros H. congruence.
+        * intros [].
+        * left. symmetry. apply (wf_comp_nimpl _ _ Wm Hi0).
+      + intros _. cbn. symmetry. apply (wf_comp_nimpl _ _ Wm Hi0).
+    - apply kmem_false in Ek. rewrite R1 in Ek.
+      split; [exact H0|]. split; [|split; [exact Hf|split; [exact Hl|]]].
+      + constructor; try assumption.
+        * intros H. destruct (R7 H) as [H'|H']; [left; exact H'|contradiction].
+        * intros [].
+        * destruct R10 as [H|[[H1 H2]|H]]; [left; exact H| |contradiction].
+          right. left. split; [exact H1|]. apply Hkeep; [apply Hnew; exact H0|exact H2].
+      + intros Hnl. destruct R10 as [H|[[H1 H2]|H]]; [exact H| |contradiction].
+        rewrite (Hnil Hnl) in H2. destruct H2. }
+  assert (Q2 : QI s [] (concat dss2) s2).
+  { constructor.
+    - apply (qi_expl _ _ _ _ Q).
+    - rewrite Hlen2. apply le_n.
+    - unfold s2. cbn [with_mods mods]. rewrite Hko, (keys_olds_Q s imp _ mid Q). apply (wfs_nodup _ W).
+    - rewrite Holds2. eapply Forall2_impl; [|exact FU]. cbn. tauto. }
+  assert (F2 : FE s s2).
+  { unfold FE. rewrite Holds2. eapply Forall2_impl; [|exact FU]. cbn. intros a b [_ [Hr [Hf _]]].
+    split; [apply (q_key _ _ _ _ Hr)|exact Hf]. }
+  assert (L2 : LE s s2).
+  { unfold LE, PE. rewrite Holds2. eapply Forall2_impl; [|exact FU]. cbn. intros a b [_ [Hr [_ [Hl _]]]].
+    split; [apply (q_key _ _ _ _ Hr)|exact Hl]. }
+  assert (Himp2 : implementing s2 = imp) by exact Himp.
+  rewrite Himp2.
+  destruct imp as [|k0 imp'].
+  - (* nothing was being implemented: nothing is recompiled *)
+    cbn [erase with_implementing with_creating mods].
+    eapply Forall2_impl; [|exact FU]. cbn. intros a b [_ [Hr [Hf [Hl Hc]]]].
+    destruct Hr as [R1 R2 R3 R4 R5 R6 R7 R8 R9 R10]. constructor; try assumption; [|apply Hc; reflexivity].
+    destruct (m_impl a) eqn:Ea; [apply R6; reflexivity|]. destruct (m_impl b) eqn:Eb; [|reflexivity].
+    destruct (R7 eq_refl) as [H|[]]. discriminate.
+  - (* the previous context is recompiled *)
+    assert (H2 : healthy s2).
+    { intros m'' Hin Htc. destruct (Forall2_In_r _ _ _ _ FU Hin) as [m0 [_ [H0 [Hr [Hf _]]]]].
+      destruct Hr as [R1 R2 R3 R4 R5 R6 R7 R8 R9 R10].
+      rewrite (compiles_ok_ext m0 m'' Hf R3). destruct (R7 (R9 Htc)) as [Hi|[]].
+      apply (wf_comp_impl _ _ (wfs_mods _ W m0 H0) Hi). }
+    assert (Hd2 : forall ds, In ds dss2 -> incl ds (concat dss2)).
+    { intros ds Hin x Hx. apply in_concat. exists ds. tauto. }
+    destruct (compile_all_QI s [] (concat dss2) W dss2 s2 Q2 F2 Hd2) as [Q3 S3].
+    destruct (compile_all_ok s (concat dss2) W dss2 s2 Q2 F2 H2 Hd2) as [_ [_ T3]].
+    set (s3 := fst (compile_all dss2 s2)) in *.
+    assert (Hlen3 : length (mods s3) = length (mods s)).
+    { rewrite <- Hlen2. pose proof (f_equal (@length _) (sb_mods _ _ _ S3)) as E. rewrite !map_length in E. exact E. }
+    assert (Holds3 : olds_of s s3 = mods s3) by (unfold olds_of; rewrite <- Hlen3; apply firstn_all).
+    pose proof (FE_same_but s s2 s3 S3 F2) as F3.
+    assert (L3 : LE s s3).
+    { apply (PE_same_but m_latest no_tc_comp s s2 s3); [intros m; reflexivity|intros m; reflexivity|exact S3|exact L2]. }
+    cbn [erase with_implementing with_creating mods].
+    pose proof (Forall2_with_In _ _ _ (Forall2_3 _ _ _ _ _ (qi_olds _ _ _ _ Q3) F3 L3)) as FB.
+    rewrite Holds3 in FB. pose proof (Forall2_with_In_r _ _ _ FB) as FB'.
+    eapply Forall2_impl; [|exact FB']. cbn. intros a b [Hb [H0 [Hr [[_ Hf] [_ Hl]]]]].
+    destruct Hr as [R1 R2 R3 R4 R5 R6 R7 R8 R9 R10]. constructor; try assumption.
+    + destruct (m_impl a) eqn:Ea; [apply R6; reflexivity|]. destruct (m_impl b) eqn:Eb; [|reflexivity].
+      destruct (R7 eq_refl) as [H|[]]. discriminate.
+    + destruct R10 as [H|[[H1 H2']|[]]]; [exact H|].
+      assert (Fb : find_mod (mkey b) (mods s3) = Some b)
+        by (apply find_mod_unique; [apply (qi_nodup _ _ _ _ Q3)|exact Hb|reflexivity]).
+      rewrite R1 in Fb. rewrite (T3 (mkey a) b H2' Fb) in H1. discriminate.
+Qed.
+
+
+(* ------------------------------------------------------------------------------------------------ *)
+(* the hypotheses at the cleanup point, positionally                                                *)
+(* ------------------------------------------------------------------------------------------------ *)
+Lemma keeps_Forall2 (p : modl -> modl -> bool) L : NoDup (keys L) -> forall l l',
+  keys l' = keys l -> (forall m', In m' l' -> In m' L) ->
+  forallb (fun m => match find_mod (mkey m) L with Some m' => p m m' | None => false end) l = true ->
+  Forall2 (fun m m' => mkey m' = mkey m /\ p m m' = true) l l'.
+Proof.
+  intros Hnd. induction l as [|a l IH]; intros [|b l'] Hk Hin Hf; cbn [keys map] in Hk; try discriminate; constructor.
+  - pose proof (f_equal (@hd key (0, 0)) Hk) as Hk1. cbn [hd] in Hk1. split; [exact Hk1|].
+    cbn [forallb] in Hf. apply andb_true_iff in Hf. destruct Hf as [Hf _].
+    rewrite (find_mod_unique (mkey a) L b Hnd (Hin b (or_introl eq_refl)) Hk1) in Hf. exact Hf.
+  - pose proof (f_equal (@tl key) Hk) as Hk2. cbn [tl] in Hk2.
+    cbn [forallb] in Hf. apply andb_true_iff in Hf. destruct Hf as [_ Hf].
+    apply IH; [exact Hk2|intros m' H; apply Hin; right; exact H|exact Hf].
+Qed.
+
+Record frame_eq (t t' : state) : Prop := {
+  fe_expl : explicit t' = explicit t;
+  fe_creating : creating t' = creating t;
+  fe_keys : keys (mods t') = keys (mods t) }.
+
+Lemma frame_eq_refl t : frame_eq t t.
+Proof. constructor; reflexivity. Qed.
+Lemma frame_eq_trans t1 t2 t3 : frame_eq t1 t2 -> frame_eq t2 t3 -> frame_eq t1 t3.
+Proof. intros [] []. constructor; congruence. Qed.
+Lemma same_but_frame N t t' : (forall m, mkey (N m) = mkey m) -> same_but N t t' -> frame_eq t t'.
+Proof.
+  intros HN [E1 E2 E3 E4]. constructor; [exact E1|exact E2|].
+  assert (G : forall l, keys l = keys (map N l)).
+  { intros l. unfold keys. rewrite map_map. apply map_ext. intros m. symmetry. apply HN. }
+  rewrite G, E4, <- G. reflexivity.
+Qed.
+Lemma frame_eq_upd t k g : (forall m, mkey (g m) = mkey m) -> frame_eq t (upd_s k g t).
+Proof. intros H. constructor; try reflexivity. cbn [upd_s with_mods mods]. apply keys_upd. exact H. Qed.
+
+Lemma same_but_compile_all : forall dss t, same_but no_tc_comp t (fst (compile_all dss t)).
+Proof.
+  assert (Hc : forall ds t done, same_but no_comp t (fst (fst (compile_mods ds t done)))).
+  { induction ds as [|k ds IH]; intros t done; cbn [compile_mods]; [apply same_but_refl|].
+    destruct (find_mod k (mods t)) as [m|]; [|apply IH]. destruct (negb (m_tc m)); [apply IH|].
+    assert (S1 : same_but no_comp t (add_ev (EvCompile k) (upd_s k (set_comp None) t))).
+    { eapply same_but_trans; [apply same_but_upd|apply same_but_add_ev]. intros x; destruct x; reflexivity. }
+    destruct (node_fault m); [exact S1|]. eapply same_but_trans; [exact S1|].
+    eapply same_but_trans; [|apply IH]. apply same_but_upd. intros x; destruct x; reflexivity. }
+  assert (Hp : forall done t, same_but no_comp t (fst (prune_mods done t))).
+  { induction done as [|k done IH]; intros t; cbn [prune_mods]; [apply same_but_refl|].
+    destruct (find_mod k (mods t)) as [m|]; [|apply IH].
+    assert (S1 : same_but no_comp t (upd_s k (set_comp (Some (snapshot (mods t) m))) t))
+      by (apply same_but_upd; intros x; destruct x; reflexivity).
+    match goal with |- context [if ?c then _ else _] => destruct c end; [exact S1|].
+    eapply same_but_trans; [exact S1|apply IH]. }
+  assert (Hd : forall ds t, same_but no_tc_comp t (fst (depset_r ds t))).
+  { intros ds t. unfold depset_r. pose proof (Hc ds t []) as S1.
+    destruct (compile_mods ds t []) as [[t1 done] ok]. cbn [fst] in S1.
+    destruct (negb ok); [apply no_comp_weaken; exact S1|].
+    destruct (existsb _ done); [apply no_comp_weaken; exact S1|].
+    pose proof (Hp done t1) as S2. destruct (prune_mods done t1) as [t2 ok2]. cbn [fst] in S2.
+    assert (S12 : same_but no_tc_comp t t2) by (apply no_comp_weaken; eapply same_but_trans; eassumption).
+    destruct (negb ok2); [exact S12|]. cbn [fst]. eapply same_but_trans; [exact S12|].
+    rewrite (fold_upd_mods (set_tc false)) by reflexivity. constructor; try reflexivity.
+    cbn [with_mods mods]. rewrite map_map. apply map_ext. intros m. destruct (kmem (mkey m) ds); destruct m; reflexivity. }
+  induction dss as [|ds dss IH]; intros t; cbn [compile_all]; [apply same_but_refl|].
+  destruct (negb (depset_check_features ds t)); [apply same_but_refl|].
+  pose proof (Hd ds t) as S1. destruct (depset_r ds t) as [t1 ok]. cbn [fst] in S1.
+  destruct (negb ok); [exact S1|]. eapply same_but_trans; [exact S1|apply IH].
+Qed.
+
+Lemma same_but_dep_sets_create t target : same_but no_tc t (fst (dep_sets_create t target)).
+Proof.
+  assert (Hl : forall fuel t cs main, same_but no_tc t (fst (dep_sets_loop fuel t target cs main))).
+  { induction fuel as [|fuel IH]; intros t0 cs main; cbn [dep_sets_loop]; [apply same_but_out_of_fuel|].
+    destruct cs as [|c0 cs']; [apply same_but_refl|].
+    destruct (dep_dfs _ t0 _ _) as [[[cs1 ds] aux] oof].
+    assert (S1 : same_but no_tc t0 (if oof then out_of_fuel t0 else t0))
+      by (destruct oof; [apply same_but_out_of_fuel|apply same_but_refl]).
+    pose proof (mark_depset_same_but ds (if oof then out_of_fuel t0 else t0)) as S2.
+    destruct target; [eapply same_but_trans; eassumption|].
+    eapply same_but_trans; [exact S1|]. eapply same_but_trans; [exact S2|apply IH]. }
+  unfold dep_sets_create. destruct (create_single _ t 0 _ []) as [cs1 main1].
+  destruct target as [k|]; [destruct (negb (kmem k cs1)); [apply same_but_refl|]|]; apply Hl.
+Qed.
+
+Lemma no_tc_weaken t t' : same_but no_tc t t' -> same_but no_tc_comp t t'.
+Proof. apply same_but_weaken. intros m. destruct m; reflexivity. Qed.
+
+(* dep sets + compilation of implement_and_compile *)
+Definition dc (t : state) (k : key) : state * list (list key) * bool :=
+  let '(s2, dss) := dep_sets_create t (Some k) in
+  let '(s3, ok3) := compile_all dss s2 in (s3, dss, ok3).
+
+Lemma dc_same_but t k : same_but no_tc_comp t (fst (fst (dc t k))).
+Proof.
+  unfold dc. pose proof (same_but_dep_sets_create t (Some k)) as S1.
+  destruct (dep_sets_create t (Some k)) as [s2 dss]. cbn [fst] in S1.
+  pose proof (same_but_compile_all dss s2) as S2. destruct (compile_all dss s2) as [s3 ok3]. cbn [fst] in *.
+  eapply same_but_trans; [apply no_tc_weaken; exact S1|exact S2].
+Qed.
+
+Lemma iac_unfold t k sel :
+  implement_and_compile t k sel =
+  let '(s1, ok) := set_implemented t k sel in
+  if negb ok then (s1, [], false) else if explicit s1 then (s1, [], true) else dc s1 k.
+Proof. reflexivity. Qed.
+
+Lemma iac_frame t k sel : frame_eq t (fst (fst (implement_and_compile t k sel))).
+Proof.
+  rewrite iac_unfold.
+  assert (Hdc : forall t2, frame_eq t t2 -> frame_eq t (fst (fst (if explicit t2 then (t2, [], true) else dc t2 k)))).
+  { intros t2 F2. destruct (explicit t2); [exact F2|]. eapply frame_eq_trans; [exact F2|].
+    apply (same_but_frame no_tc_comp); [intros m; reflexivity|apply dc_same_but]. }
+  destruct (set_implemented_cases t k sel) as [| |m fs F Hi Hs|m fs F Hi Hs]; cbn [negb fst].
+  - apply frame_eq_refl.
+  - apply Hdc. apply frame_eq_refl.
+  - apply Hdc. constructor; try reflexivity. cbn [add_ev upd_s with_mods mods]. apply keys_upd. reflexivity.
+  - apply Hdc. eapply frame_eq_trans; [|apply (same_but_frame no_tc); [intros x; reflexivity|apply has_compiled_import_r_same_but]].
+    constructor; try reflexivity. cbn [with_implementing add_ev upd_s with_mods mods]. apply keys_upd. reflexivity.
+Qed.
+
+(* ------------------------------------------------------------------------------------------------ *)
+(* the main theorem                                                                                 *)
+(* ------------------------------------------------------------------------------------------------ *)
+Lemma PI_frame s t1 mid : PI s t1 -> frame_eq t1 mid ->
+  NoDup (keys (mods mid)) /\ keys (olds_of s mid) = keys (mods s) /\ creating mid = keys (news_of s mid).
+Proof.
+  intros P [E1 E2 E3]. split; [rewrite E3; apply (pi_nodup _ _ P)|]. split.
+  - unfold olds_of, keys. rewrite <- firstn_map. fold (keys (mods mid)). rewrite E3. unfold keys. rewrite firstn_map.
+    apply (keys_olds s t1 P).
+  - rewrite E2, (pi_creating _ _ P). unfold news_of, keys. rewrite <- !skipn_map. fold (keys (mods mid)). rewrite E3. reflexivity.
+Qed.
+
+Lemma PI_none_tc s t : wf_state s -> PI s t -> none_tc t.
+Proof.
+  intros W P m Hin. rewrite (olds_news s t) in Hin. apply in_app_or in Hin. destruct Hin as [Hin|Hin].
+  - pose proof (map_eq_Forall2 _ _ _ (pi_olds _ _ P)) as F.
+    destruct (Forall2_In_r _ _ _ _ (Forall2_with_In _ _ _ F) Hin) as [m0 [_ [H0 E]]].
+    apply clr_flags_fields in E. destruct E as [_ [_ [_ [_ [_ [_ [E _]]]]]]]. rewrite E. apply (wf_tc _ _ (wfs_mods _ W m0 H0)).
+  - pose proof (pi_news _ _ P) as Fn. rewrite Forall_forall in Fn. apply (Fn m Hin).
+Qed.
+
+Lemma PI_FE s t : PI s t -> FE s t.
+Proof.
+  intros P. pose proof (map_eq_Forall2 _ _ _ (pi_olds _ _ P)) as F. eapply Forall2_impl; [|exact F]. cbn.
+  intros a b E. apply clr_flags_fields in E. tauto.
+Qed.
+
+(* implement_and_compile from the end of the parse phase, failing *)
+Lemma iac_restores s t1 k sel mid dss :
+  wf_state s -> PI s t1 -> implement_and_compile t1 k sel = (mid, dss, false) ->
+  FE s mid -> LE s mid ->
+  Forall2 frel (mods s) (mods (erase (revert mid dss))).
+Proof.
+  intros W P E F L.
+  pose proof (iac_frame t1 k sel) as Fr. rewrite E in Fr. cbn [fst] in Fr.
+  destruct (PI_frame s t1 mid P Fr) as [Hnd [Hko Hcr]].
+  rewrite iac_unfold in E.
+  destruct (set_implemented_cases t1 k sel) as [| |m fs Fm Hi Hs|m fs Fm Hi Hs]; cbn [negb] in E.
+  - (* _lys_set_implemented failed: nothing was touched after the parse phase *)
+    inversion E; subst mid dss.
+    apply (revert_restores s [] [] t1 W); [apply PI_QI; assumption|exact F|exact L|apply (pi_impl _ _ P)|exact Hcr|reflexivity].
+  - (* no change: nothing is marked, the compilation cannot fail *)
+    exfalso. destruct (explicit t1); [discriminate E|]. unfold dc in E.
+    pose proof (dep_sets_create_none t1 (Some k) (PI_none_tc s t1 W P)) as N2.
+    destruct (dep_sets_create t1 (Some k)) as [s2 dss2]. cbn [fst] in N2.
+    destruct (compile_all_none dss2 s2 N2) as [Ok _]. destruct (compile_all dss2 s2) as [s3 ok3]. cbn [snd] in Ok.
+    inversion E. congruence.
+  - (* feature bits of an implemented (hence old) module changed: excluded by the hypothesis *)
+    exfalso.
+    set (t2 := add_ev EvChange (upd_s k (fun m0 => set_tc true (set_feats fs m0)) t1)) in *.
+    assert (S : same_but no_tc_comp t2 mid).
+    { destruct (explicit t2); [inversion E; apply same_but_refl|].
+      pose proof (dc_same_but t2 k) as S. rewrite E in S. exact S. }
+    assert (F2 : find_mod k (mods t2) = Some (set_tc true (set_feats fs m))).
+    { unfold t2. cbn [add_ev upd_s with_mods mods].
+      apply (find_mod_upd_same k (fun m0 => set_tc true (set_feats fs m0)) (mods t1) m); [reflexivity|exact Fm]. }
+    destruct (same_but_find_l no_tc_comp t2 mid k (set_tc true (set_feats fs m)) (fun x => eq_refl (mkey x)) S F2) as [mm [Fmm Emm]].
+    assert (Efs : m_feats mm = fs) by exact (f_equal m_feats Emm).
+    (* m is an old module *)
+    rewrite (olds_news s t1), find_mod_app in Fm.
+    destruct (find_mod k (olds_of s t1)) as [mo|] eqn:Fo.
+    2:{ apply find_mod_In in Fm. destruct Fm as [Hin _]. pose proof (pi_news _ _ P) as Fn. rewrite Forall_forall in Fn.
+        destruct (Fn m Hin) as [Hf _]. congruence. }
+    inversion Fm; subst mo.
+    destruct (find_mod_Forall2_r _ k _ _ m (PI_FE s t1 P) Fo) as [m0 [F0 Hf0]].
+    destruct (find_mod_Forall2 _ k _ _ m0 F F0) as [b [Fb Hfb]].
+    rewrite (olds_news s mid), find_mod_app, Fb in Fmm. inversion Fmm; subst b.
+    apply (set_features_changed _ _ _ Hs). congruence.
+  - (* lys_implement *)
+    assert (Himp1 : implementing t1 = []) by apply (pi_impl _ _ P).
+    set (t2' := with_implementing (implementing t1 ++ [k])
+                  (add_ev EvChange (upd_s k (fun m0 => set_tc true (set_impl true (set_feats fs m0))) t1))) in *.
+    pose proof (QI_implement s [] t1 k m fs (PI_QI s t1 W P) Fm Hi) as Q2'. fold t2' in Q2'.
+    destruct (has_compiled_import_r_QI s [k] [] (S (length (mods t1))) t2' k Q2') as [Q2 S2].
+    set (t2 := fst (has_compiled_import_r (S (length (mods t1))) t2' k)) in *.
+    assert (Hi2 : implementing t2 = [k]).
+    { rewrite (sb_implementing _ _ _ S2). unfold t2'. cbn [with_implementing implementing]. rewrite Himp1. reflexivity. }
+    destruct (explicit t2); [discriminate E|]. unfold dc in E.
+    destruct (dep_sets_create_QI s [k] [] t2 (Some k) Q2) as [Q3 S3].
+    destruct (dep_sets_create t2 (Some k)) as [t3 dss3]. cbn [fst] in Q3, S3.
+    pose proof (same_but_compile_all dss3 t3) as S4.
+    assert (Hd3 : forall ds, In ds dss3 -> incl ds (concat dss3)).
+    { intros ds Hin x Hx. apply in_concat. exists ds. tauto. }
+    assert (Q3' : QI s [k] (concat dss3) t3) by (eapply QI_mono_D; [exact Q3|intros x []]).
+    destruct (compile_all dss3 t3) as [t4 ok4] eqn:Ec. cbn [fst] in S4. inversion E; subst t4 dss3 ok4.
+    assert (F3 : FE s t3) by (apply (FE_same_but s mid t3 (same_but_sym _ _ _ S4) F)).
+    pose proof (compile_all_QI s [k] (concat dss) W dss t3 Q3' F3 Hd3) as [Q4 _]. rewrite Ec in Q4. cbn [fst] in Q4.
+    apply (revert_restores s [k] dss mid W Q4 F L); [|exact Hcr|discriminate].
+    rewrite (sb_implementing _ _ _ S4), (sb_implementing _ _ _ S3). exact Hi2.
+Qed.
+
+Lemma keeps_PE {X} (f : modl -> X) (p : modl -> modl -> bool) R s o :
+  (forall m m', p m m' = true -> f m' = f m) ->
+  NoDup (keys (mods (step_mid R s o))) -> keys (olds_of (core s) (step_mid R s o)) = keys (mods s) ->
+  keeps p R s o = true -> PE f (core s) (step_mid R s o).
+Proof.
+  intros Hp Hnd Hk Hkeep. unfold PE. cbn [core mods].
+  pose proof (keeps_Forall2 p (mods (step_mid R s o)) Hnd (mods s) (olds_of (core s) (step_mid R s o)) Hk
+                (fun m' H => In_olds (core s) _ m' H) Hkeep) as F.
+  eapply Forall2_impl; [|exact F]. cbn. intros a b [H1 H2]. split; [exact H1|apply Hp; exact H2].
+Qed.
+
+Lemma finish_err o mid dss r s' :
+  finish o (mid, dss, r) = (s', RErr) -> r = RErr /\ s' = erase (revert mid dss).
+Proof.
+  unfold finish. destruct (fuel_out mid); [destruct r, o; try destruct (explicit mid); intros H; inversion H|].
+  destruct (aborted mid); [destruct r, o; try destruct (explicit mid); intros H; inversion H|].
+  destruct r; try (intros H; inversion H; fail).
+  - destruct o; try destruct (explicit mid); intros H; inversion H.
+  - intros H. inversion H. tauto.
+Qed.
+
+Theorem failed_restores R s o s' :
+  quiescent s = true -> keeps_latest R s o = true -> keeps_features R s o = true ->
+  step R s o = (s', RErr) -> obs s' = obs s.
+Proof.
+  intros Hq Hkl Hkf Hstep.
+  assert (W : wf_state (core s)) by (apply quiescent_wf; exact Hq).
+  assert (P0 : PI (core s) (core s)) by (apply PI_refl; [exact W|reflexivity]).
+  change (obs s) with (obs (core s)). apply obs_frel.
+  unfold step in Hstep. unfold keeps_latest, keeps_features in *.
+  assert (Hmid : step_mid R s o = fst (fst (attempt R (core s) o))) by reflexivity.
+  destruct (attempt R (core s) o) as [[mid dss] r] eqn:Ea. cbn [fst] in Hmid.
+  destruct (finish_err o mid dss r s' Hstep) as [-> ->].
+  (* the frame at the cleanup point gives the two hypotheses positionally *)
+  assert (Hgoal : forall t1, PI (core s) t1 -> frame_eq t1 mid ->
+            (FE (core s) mid -> LE (core s) mid -> Forall2 frel (mods (core s)) (mods (erase (revert mid dss)))) ->
+            Forall2 frel (mods (core s)) (mods (erase (revert mid dss)))).
+  { intros t1 P1 Fr K. destruct (PI_frame (core s) t1 mid P1 Fr) as [Hnd [Hko _]]. rewrite <- Hmid in Hnd, Hko.
+    apply K; rewrite <- Hmid.
+    - apply (keeps_PE m_feats (fun m m' => feats_eqb (m_feats m') (m_feats m)) R s o);
+        [intros a b H; apply feats_eqb_eq; exact H|exact Hnd|exact Hko|exact Hkf].
+    - apply (keeps_PE m_latest (fun m m' => Bool.eqb (m_latest m') (m_latest m)) R s o);
+        [intros a b H; apply Bool.eqb_prop; exact H|exact Hnd|exact Hko|exact Hkl]. }
+  assert (Hfail : forall t1, PI (core s) t1 -> mid = t1 -> dss = [] ->
+            Forall2 frel (mods (core s)) (mods (erase (revert mid dss)))).
+  { intros t1 P1 -> ->. apply (Hgoal t1 P1 (frame_eq_refl t1)). intros F L.
+    destruct (PI_frame (core s) t1 t1 P1 (frame_eq_refl t1)) as [_ [_ Hcr]].
+    apply (revert_restores (core s) [] [] t1 W); [apply PI_QI; assumption|exact F|exact L|apply (pi_impl _ _ P1)|exact Hcr|reflexivity]. }
+  assert (Hiac : forall t1 k sel, PI (core s) t1 ->
+            (let '(s2, dss2, ok) := implement_and_compile t1 k sel in (s2, dss2, if ok then ROk else RErr)) = (mid, dss, RErr) ->
+            Forall2 frel (mods (core s)) (mods (erase (revert mid dss)))).
+  { intros t1 k sel P1 E. destruct (implement_and_compile t1 k sel) as [[s2 dss2] ok] eqn:Ei.
+    destruct ok; [discriminate E|]. inversion E; subst s2 dss2.
+    pose proof (iac_frame t1 k sel) as Fr. rewrite Ei in Fr. cbn [fst] in Fr.
+    apply (Hgoal t1 P1 Fr). intros F L. apply (iac_restores (core s) t1 k sel mid dss W P1 Ei F L). }
+  destruct o as [d sel|name rev sel|name rev sel|]; cbn [attempt] in Ea.
+  - pose proof (parse_in_PI (core s) (pfuel R) R (core s) d None P0) as P1.
+    destruct (parse_in (pfuel R) R (core s) d None) as [t1 pr]. cbn [fst] in P1.
+    destruct pr as [k|k| |].
+    + apply (Hiac t1 k sel P1 Ea).
+    + apply (Hiac t1 k sel P1 Ea).
+    + apply (Hfail t1 P1); congruence.
+    + apply (Hfail t1 P1); congruence.
+  - pose proof (parse_load_PI (core s) (parse_in (pfuel R) R) R (core s) name rev
+                  (fun t d chk Pt => parse_in_PI (core s) (pfuel R) R t d chk Pt) P0) as P1.
+    destruct (parse_load (parse_in (pfuel R) R) R (core s) name rev) as [t1 pr]. cbn [fst] in P1.
+    destruct pr as [k|]; [apply (Hiac t1 k sel P1 Ea)|apply (Hfail t1 P1); congruence].
+  - destruct (get_module name rev (mods (core s))) as [m|]; [apply (Hiac (core s) (mkey m) sel P0 Ea)|discriminate Ea].
+  - (* ly_ctx_compile with nothing pending cannot fail *)
+    exfalso. assert (N0 : none_tc (core s)) by (apply (PI_none_tc (core s)); assumption).
+    pose proof (dep_sets_create_none (core s) None N0) as N1.
+    destruct (dep_sets_create (core s) None) as [s1 dss1]. cbn [fst] in N1.
+    destruct (compile_all_none dss1 s1 N1) as [Ok _]. destruct (compile_all dss1 s1) as [s2 ok]. cbn [snd] in Ok.
+    subst ok. inversion Ea.
+Qed.
+
+(* ------------------------------------------------------------------------------------------------ *)
+(* reachability, later operations, change count                                                     *)
+(* ------------------------------------------------------------------------------------------------ *)
+Definition reachable (R : repo) (s : state) : Prop := exists expl ops, s = run R (init expl) ops.
+
+(* what an operation does only depends on the C state (not on the event log of the previous operation) *)
+Lemma step_core R s1 s2 o : core s1 = core s2 -> step R s1 o = step R s2 o.
+Proof. intros H. unfold step. rewrite H. reflexivity. Qed.
+
+Lemma run_core R o ops s1 s2 : core s1 = core s2 -> run R s1 (o :: ops) = run R s2 (o :: ops).
+Proof. intros H. unfold run. cbn [fold_left]. rewrite (step_core R s1 s2 o H). reflexivity. Qed.
+
+(* ly_ctx_get_change_count never decreases except by wrapping around at 2^16 *)
+Lemma change_count_step R c o :
+  let c' := fst (cstep R c o) in
+  snd c' = (snd c + N.of_nat (length (evs (fst c')))) mod 65536 /\
+  (snd c + N.of_nat (length (evs (fst c'))) < 65536 -> snd c <= snd c').
+Proof.
+  unfold cstep. destruct (step R (fst c) o) as [s' r]. cbn [fst snd]. unfold change_count_after. split; [reflexivity|].
+  intros H. rewrite N.mod_small by exact H. lia.
+Qed.
+
+(* ------------------------------------------------------------------------------------------------ *)
+(* fault kinds that always restore (from a quiescent state)                                         *)
+(* ------------------------------------------------------------------------------------------------ *)
+Lemma keeps_refl_mid p R s o : (forall m, p m m = true) -> NoDup (keys (mods s)) -> mods (step_mid R s o) = mods s ->
+  keeps p R s o = true.
+Proof.
+  intros Hp Hnd Hm. unfold keeps. rewrite Hm. apply forallb_forall. intros m Hin.
+  rewrite (find_mod_unique (mkey m) (mods s) m Hnd Hin eq_refl). apply Hp.
+Qed.
+
+Lemma feats_eqb_refl l : feats_eqb l l = true.
+Proof. apply feats_eqb_eq. reflexivity. Qed.
+
+(* a syntax error in the module text *)
+Lemma syntax_fault_restores R s d sel s' r :
+  quiescent s = true -> d_fault d = 1 -> step R s (OpParse d sel) = (s', r) -> r = RErr /\ obs s' = obs s.
+Proof.
+  intros Hq Hf Hs.
+  assert (Hmid : step_mid R s (OpParse d sel) = core s).
+  { unfold step_mid, attempt, pfuel. cbn [parse_in]. rewrite Hf. reflexivity. }
+  assert (Hr : r = RErr).
+  { unfold step, attempt, pfuel in Hs. cbn [parse_in] in Hs. rewrite Hf in Hs. cbn in Hs. inversion Hs. reflexivity. }
+  split; [exact Hr|]. subst r. pose proof (wfs_nodup _ (quiescent_wf s Hq)) as Hnd.
+  apply (failed_restores R s (OpParse d sel) s' Hq); [| |exact Hs].
+  - apply keeps_refl_mid; [intros m; apply Bool.eqb_reflx|exact Hnd|rewrite Hmid; reflexivity].
+  - apply keeps_refl_mid; [intros m; apply feats_eqb_refl|exact Hnd|rewrite Hmid; reflexivity].
+Qed.
+
+(* lys_set_implemented(m, NULL): implementing without touching the features. Whatever makes it fail (another
+   revision is implemented, a node that does not compile, a leafref without target, a disabled list key), the
+   context is restored. *)
+Definition nrm_I (m : modl) : modl := set_tc false (set_comp None (set_impl false m)).
+
+Lemma iac_FNull_mods t k :
+  NoDup (keys (mods t)) ->
+  map nrm_I (mods (fst (fst (implement_and_compile t k FNull)))) = map nrm_I (mods t).
+Proof.
+  intros Hnd. rewrite iac_unfold.
+  assert (Hdc : forall t2, map nrm_I (mods t2) = map nrm_I (mods t) ->
+            map nrm_I (mods (fst (fst (if explicit t2 then (t2, [], true) else dc t2 k)))) = map nrm_I (mods t)).
+  { intros t2 E2. destruct (explicit t2); [exact E2|]. rewrite <- E2.
+    pose proof (dc_same_but t2 k) as S. apply (same_but_weaken no_tc_comp nrm_I) in S; [apply (sb_mods _ _ _ S)|].
+    intros m; destruct m; reflexivity. }
+  destruct (set_implemented_cases t k FNull) as [| |m fs F Hi Hs|m fs F Hi Hs]; cbn [negb fst].
+  - reflexivity.
+  - apply Hdc. reflexivity.
+  - discriminate Hs.
+  - destruct Hs as [Hs|Hs]; [discriminate Hs|]. subst fs. apply Hdc.
+    pose proof (has_compiled_import_r_same_but (S (length (mods t)))
+                  (with_implementing (implementing t ++ [k])
+                     (add_ev EvChange (upd_s k (fun m0 => set_tc true (set_impl true (set_feats (m_feats m) m0))) t))) k) as S.
+    apply (same_but_weaken no_tc nrm_I) in S; [|intros x; destruct x; reflexivity].
+    rewrite (sb_mods _ _ _ S). cbn [with_implementing add_ev upd_s with_mods mods]. unfold upd. rewrite map_map.
+    apply map_ext_in. intros x Hx. destruct (key_eqb (mkey x) k) eqn:E; [|reflexivity].
+    apply key_eqb_eq in E. assert (x = m) by (eapply find_mod_is; eassumption). subst x. destruct m; reflexivity.
+Qed.
+
+Lemma keeps_map_eq (N : modl -> modl) p R s o :
+  (forall m, mkey (N m) = mkey m) -> (forall m m', N m' = N m -> p m m' = true) ->
+  NoDup (keys (mods s)) -> map N (mods (step_mid R s o)) = map N (mods s) -> keeps p R s o = true.
+Proof.
+  intros HN Hp Hnd Hm. unfold keeps. apply forallb_forall. intros m Hin.
+  pose proof (find_mod_unique (mkey m) (mods s) m Hnd Hin eq_refl) as F.
+  destruct (find_mod_map_eq N (mkey m) HN (mods (step_mid R s o)) (mods s) (eq_sym Hm) m F) as [m' [F' E]].
+  rewrite F'. apply Hp. symmetry. exact E.
+Qed.
+
+Lemma failed_implement_restores R s name rev s' :
+  quiescent s = true -> step R s (OpImpl name rev FNull) = (s', RErr) -> obs s' = obs s.
+Proof.
+  intros Hq Hs. pose proof (wfs_nodup _ (quiescent_wf s Hq)) as Hnd.
+  assert (Hm : map nrm_I (mods (step_mid R s (OpImpl name rev FNull))) = map nrm_I (mods s)).
+  { unfold step_mid, attempt. destruct (get_module name rev (mods (core s))) as [m|]; [|reflexivity].
+    pose proof (iac_FNull_mods (core s) (mkey m) Hnd) as E.
+    destruct (implement_and_compile (core s) (mkey m) FNull) as [[s2 dss] ok]. exact E. }
+  apply (failed_restores R s (OpImpl name rev FNull) s' Hq); [| |exact Hs].
+  - apply (keeps_map_eq nrm_I); [intros m; reflexivity| |exact Hnd|exact Hm].
+    intros m m' E. pose proof (f_equal m_latest E) as E'. change (m_latest m' = m_latest m) in E'.
+    rewrite E'. apply Bool.eqb_reflx.
+  - apply (keeps_map_eq nrm_I); [intros m; reflexivity| |exact Hnd|exact Hm].
+    intros m m' E. pose proof (f_equal m_feats E) as E'. change (m_feats m' = m_feats m) in E'.
+    rewrite E'. apply feats_eqb_refl.
+Qed.
+
+(* ly_ctx_compile() with nothing pending succeeds (and compiles nothing) *)
+Lemma compile_quiescent_ok R s : quiescent s = true ->
+  snd (step R s OpCompile) <> RErr /\ compiled_in (fst (step R s OpCompile)) = [].
+Proof.
+  intros Hq. assert (W : wf_state (core s)) by (apply quiescent_wf; exact Hq).
+  assert (N0 : none_tc (core s)) by (apply (PI_none_tc (core s)); [exact W|apply PI_refl; [exact W|reflexivity]]).
+  unfold step, attempt.
+  pose proof (dep_sets_create_none (core s) None N0) as N1.
+  pose proof (same_but_dep_sets_create (core s) None) as S1.
+  destruct (dep_sets_create (core s) None) as [s1 dss1] eqn:Ed. cbn [fst] in N1, S1.
+  destruct (compile_all_none dss1 s1 N1) as [Ok [_ Ev]]. destruct (compile_all dss1 s1) as [s2 ok]. cbn [fst snd] in Ok, Ev.
+  subst ok. unfold finish. split.
+  - destruct (fuel_out s2); [discriminate|]. destruct (aborted s2); discriminate.
+  - cbn [fst]. unfold compiled_in, erase. cbn [with_implementing with_creating evs]. rewrite Ev.
+    assert (E1 : evs s1 = []).
+    { clear -Ed. unfold dep_sets_create in Ed. destruct (create_single _ (core s) 0 _ []) as [cs1 main1].
+      assert (Hl : forall fuel t cs main, evs (fst (dep_sets_loop fuel t None cs main)) = evs t).
+      { induction fuel as [|fuel IH]; intros t cs main; cbn [dep_sets_loop]; [reflexivity|].
+        destruct cs as [|c0 cs']; [reflexivity|]. destruct (dep_dfs _ t _ _) as [[[cs2 ds] aux] oof].
+        rewrite IH. unfold mark_depset. destruct (existsb _ ds).
+        - rewrite (fold_upd_mods (fun m => if m_impl m then set_tc true m else m)).
+          + destruct oof; reflexivity.
+          + intros m; destruct (m_impl m); reflexivity.
+          + intros m; destruct (m_impl m) eqn:E; [cbn; rewrite E; reflexivity|rewrite E; reflexivity].
+        - destruct oof; reflexivity. }
+      pose proof (Hl (S (length (map mkey (mods (core s))))) (core s) cs1 main1) as H. rewrite Ed in H. exact H. }
+    rewrite E1. reflexivity.
+Qed.
+
+(* ------------------------------------------------------------------------------------------------ *)
+(* data trees: a failure in the parse stage compiles nothing                                        *)
+(* ------------------------------------------------------------------------------------------------ *)
+Definition fails_in_parse (R : repo) (s : state) (o : op) : bool :=
+  match o with
+  | OpParse d _ => match snd (parse_in (pfuel R) R (core s) d None) with POk _ | PDup _ => false | _ => true end
+  | OpLoad name rev _ => match snd (parse_load (parse_in (pfuel R) R) R (core s) name rev) with Some _ => false | None => true end
+  | _ => false
+  end.
+
+Lemma revert_parse_evs s t1 : PI s t1 -> evs (erase (revert t1 [])) = evs t1.
+Proof.
+  intros P. unfold revert. rewrite (pi_impl _ _ P). cbn [fold_left].
+  change (fun (a : state * list (list key)) k => (with_mods (rm_mod k (mods (fst a))) (fst a), rm_from_depsets k (snd a)))
+    with rm_step.
+  pose proof (remove_created (olds_of s t1) (creating t1) (news_of s t1) t1 [] (olds_news s t1)) as H.
+  rewrite (pi_creating _ _ P) in *. specialize (H (Permutation_refl _)).
+  rewrite <- (olds_news s t1) in H. specialize (H (pi_nodup _ _ P)). cbv zeta in H.
+  destruct (fold_left rm_step (keys (news_of s t1)) (t1, [])) as [s2 dss2]. cbn [fst] in H. destruct H as [-> _].
+  cbn [with_mods implementing]. rewrite (pi_impl _ _ P). reflexivity.
+Qed.
+
+Lemma parse_failure_compiles_nothing R s o :
+  quiescent s = true -> fails_in_parse R s o = true -> compiled_in (fst (step R s o)) = [].
+Proof.
+  intros Hq Hf. assert (W : wf_state (core s)) by (apply quiescent_wf; exact Hq).
+  assert (P0 : PI (core s) (core s)) by (apply PI_refl; [exact W|reflexivity]).
+  assert (Hgoal : forall t1, PI (core s) t1 -> compiled_in (fst (finish o (t1, [], RErr))) = []).
+  { intros t1 P1. unfold finish. cbn [fst]. unfold compiled_in. rewrite (revert_parse_evs (core s) t1 P1).
+    pose proof (pi_evs _ _ P1) as He. induction He as [|e l -> He IH]; [reflexivity|exact IH]. }
+  unfold step. destruct o as [d sel|name rev sel|name rev sel|]; cbn [fails_in_parse attempt] in *; try discriminate.
+  - pose proof (parse_in_PI (core s) (pfuel R) R (core s) d None P0) as P1.
+    destruct (parse_in (pfuel R) R (core s) d None) as [t1 pr]. cbn [fst snd] in *.
+    destruct pr; try discriminate; apply (Hgoal t1 P1).
+  - pose proof (parse_load_PI (core s) (parse_in (pfuel R) R) R (core s) name rev
+                  (fun t d chk Pt => parse_in_PI (core s) (pfuel R) R t d chk Pt) P0) as P1.
+    destruct (parse_load (parse_in (pfuel R) R) R (core s) name rev) as [t1 pr]. cbn [fst snd] in *.
+    destruct pr; try discriminate; apply (Hgoal t1 P1).
+Qed.
+
+(* ------------------------------------------------------------------------------------------------ *)
+(* witnesses (all found on the real library first; impl/t_ctx.c prints the same lines)              *)
+(* ------------------------------------------------------------------------------------------------ *)
+(* names: 0 a, 1 b, 2 c, 3 d, 7 h (a module nobody has); features f1 f2 *)
+Definition w_a1 : mdesc := mkDesc 0 1 [] [] 0.
+Definition w_a2_imp_h : mdesc := mkDesc 0 2 [(7, 1)] [] 0.
+Definition w_af1 : mdesc := mkDesc 0 1 [] [(1, []); (2, [1])] 0.           (* feature f1; feature f2 { if-feature f1; } *)
+Definition w_b1_imp_a : mdesc := mkDesc 1 1 [(0, 1)] [] 0.
+Definition w_b1_leafref : mdesc := mkDesc 1 1 [(0, 1)] [] 4.
+Definition w_b1 : mdesc := mkDesc 1 1 [] [] 0.
+Definition w_c1_syntax : mdesc := mkDesc 2 1 [] [] 1.
+
+(* 1. failed load of a newer revision: ly_ctx_get_module_latest(a) = NULL afterwards *)
+Definition w1_R : repo := [w_a1; w_a2_imp_h].
+Definition w1_s : state := run w1_R (init false) [OpParse w_a1 FNull].
+Definition w1_o : op := OpParse w_a2_imp_h FNull.
+Lemma w1_facts :
+  quiescent w1_s = true /\ keeps_features w1_R w1_s w1_o = true /\ keeps_latest w1_R w1_s w1_o = false /\
+  snd (step w1_R w1_s w1_o) = RErr /\ obs (fst (step w1_R w1_s w1_o)) <> obs w1_s.
+Proof. vm_compute. repeat split; discriminate. Qed.
+
+(* 2. lys_set_implemented(a, {f2}) on the implemented a: f1 off, f2 on, to_compile left *)
+Definition w2_R : repo := [w_af1; w_b1_imp_a].
+Definition w2_s : state := run w2_R (init false) [OpParse w_af1 (FList [1])].
+Definition w2_o : op := OpImpl 0 1 (FList [2]).
+Lemma w2_facts :
+  quiescent w2_s = true /\ keeps_latest w2_R w2_s w2_o = true /\ keeps_features w2_R w2_s w2_o = false /\
+  snd (step w2_R w2_s w2_o) = RErr /\ obs (fst (step w2_R w2_s w2_o)) <> obs w2_s /\
+  (* and a later correct load fails *)
+  snd (step w2_R (fst (step w2_R w2_s w2_o)) (OpParse w_b1_imp_a FNull)) = RErr /\
+  snd (step w2_R w2_s (OpParse w_b1_imp_a FNull)) = ROk.
+Proof. vm_compute. repeat split; discriminate. Qed.
+
+(* 3. the same on a module that is only imported: b is recompiled against the features that stay *)
+Definition w3_s : state := run w2_R (init false) [OpParse w_b1_imp_a FNull].
+Lemma w3_facts :
+  quiescent w3_s = true /\ keeps_latest w2_R w3_s w2_o = true /\ keeps_features w2_R w3_s w2_o = false /\
+  snd (step w2_R w3_s w2_o) = RErr /\ obs (fst (step w2_R w3_s w2_o)) <> obs w3_s.
+Proof. vm_compute. repeat split; discriminate. Qed.
+
+(* 4. explicit compilation: the failed parse of c removes b, which an earlier successful call added *)
+Definition w4_R : repo := [w_a1; w_b1; w_c1_syntax].
+Definition w4_s : state := run w4_R (init true) [OpParse w_a1 FNull; OpCompile; OpParse w_b1 FNull].
+Definition w4_o : op := OpParse w_c1_syntax FNull.
+Lemma w4_facts :
+  quiescent w4_s = false /\ keeps_latest w4_R w4_s w4_o = true /\ keeps_features w4_R w4_s w4_o = true /\
+  snd (step w4_R w4_s w4_o) = RErr /\ obs (fst (step w4_R w4_s w4_o)) <> obs w4_s.
+Proof. vm_compute. repeat split; discriminate. Qed.
+
+(* 5. hidden state: LYS_MOD_IMPORTED_REV stays on a@1 after the failed load of b; the observable is restored,
+   but c (import a without revision) later binds to a@1 instead of the implemented a@2 *)
+Definition w5_a1 : mdesc := mkDesc 0 1 [] [(1, [])] 0.
+Definition w5_a2 : mdesc := mkDesc 0 2 [] [(1, [])] 0.
+Definition w5_d1 : mdesc := mkDesc 3 1 [(0, 1)] [] 0.
+Definition w5_b1 : mdesc := mkDesc 1 1 [(0, 0)] [] 4.
+Definition w5_c1 : mdesc := mkDesc 2 1 [(0, 0)] [] 0.
+Definition w5_R : repo := [w5_a1; w5_a2; w5_d1; w5_b1; w5_c1].
+Definition w5_s : state := run w5_R (init false) [OpParse w5_d1 FNull].
+Definition w5_o : op := OpParse w5_b1 FNull.
+Definition w5_later : list op := [OpParse w5_a2 (FList [1]); OpParse w5_c1 FNull].
+Lemma w5_facts :
+  quiescent w5_s = true /\ snd (step w5_R w5_s w5_o) = RErr /\ obs (fst (step w5_R w5_s w5_o)) = obs w5_s /\
+  obs (run w5_R (fst (step w5_R w5_s w5_o)) w5_later) <> obs (run w5_R w5_s w5_later).
+Proof. vm_compute. repeat split; discriminate. Qed.
+
+(* 6. data trees: the failed load of b (leafref without target) recompiles a *)
+Definition w6_R : repo := [w_a1; w_b1_leafref].
+Definition w6_s : state := run w6_R (init false) [OpParse w_a1 FNull].
+Definition w6_o : op := OpParse w_b1_leafref FNull.
+Lemma w6_facts :
+  quiescent w6_s = true /\ snd (step w6_R w6_s w6_o) = RErr /\ obs (fst (step w6_R w6_s w6_o)) = obs w6_s /\
+  In (0, 1) (compiled_in (fst (step w6_R w6_s w6_o))) /\
+  option_map m_impl (find_mod (0, 1) (mods w6_s)) = Some true.
+Proof. vm_compute. repeat split; try discriminate. repeat (first [left; reflexivity|right]). Qed.
+
+Lemma reachable_run R expl ops : reachable R (run R (init expl) ops).
+Proof. exists expl, ops. reflexivity. Qed.
+
+(* the hypotheses of failed_restores hold for a failing operation of every fault kind *)
+Definition w7_R : repo :=
+  [ w_af1; w_b1_leafref;
+    mkDesc 2 1 [(0, 0); (7, 1)] [] 0;           (* c: an import is not found *)
+    mkDesc 3 1 [(0, 1)] [] 2;                   (* d: duplicate feature, found after the imports were resolved *)
+    mkDesc 4 1 [] [(1, []); (2, [1])] 0;        (* e: loaded with f2 only: if-feature not satisfied *)
+    mkDesc 5 1 [(0, 1)] [] 3;                   (* f: a node that does not compile *)
+    mkDesc 6 1 [(0, 1)] [(1, [])] 5;            (* g: list key under if-feature f1, f1 off *)
+    mkDesc 0 1 [] [(1, []); (2, [1])] 1 ].      (* syntax error *)
+Definition w7_s : state := run w7_R (init false) [OpParse w_af1 (FList [1]); OpParse w_b1_imp_a FNull].
+Definition w7_ops : list op :=
+  [ OpParse (mkDesc 5 2 [(0, 1)] [] 4) FNull; OpLoad 2 1 FNull; OpLoad 3 0 FAll; OpLoad 4 1 (FList [2]); OpLoad 5 0 FNull;
+    OpLoad 6 1 (FList []); OpParse (mkDesc 2 2 [] [] 1) FNull; OpLoad 7 0 FNull; OpImpl 0 1 (FList [9]);
+    OpParse w_af1 (FList [9]) ].
+Lemma w7_facts :
+  quiescent w7_s = true /\
+  forallb (fun o => keeps_latest w7_R w7_s o && keeps_features w7_R w7_s o &&
+                    match snd (step w7_R w7_s o) with RErr => true | _ => false end) w7_ops = true.
+Proof. vm_compute. split; reflexivity. Qed.
+
+(* ------------------------------------------------------------------------------------------------ *)
+(* the statements of Properties_C09_ctx.v that need more than `exact`                                *)
+(* ------------------------------------------------------------------------------------------------ *)
+Lemma full_statement_refuted : ~ (forall R s o s', reachable R s -> step R s o = (s', RErr) -> obs s' = obs s).
+Proof.
+  intros H. destruct w1_facts as [_ [_ [_ [Hr Ho]]]]. apply Ho.
+  apply (H w1_R w1_s w1_o (fst (step w1_R w1_s w1_o)) (reachable_run _ _ _)).
+  rewrite <- Hr. destruct (step w1_R w1_s w1_o); reflexivity.
+Qed.
+Lemma side_conditions_necessary :
+  (exists R s o, reachable R s /\ quiescent s = true /\ keeps_features R s o = true /\ keeps_latest R s o = false /\
+                 snd (step R s o) = RErr /\ obs (fst (step R s o)) <> obs s) /\
+  (exists R s o, reachable R s /\ quiescent s = true /\ keeps_latest R s o = true /\ keeps_features R s o = false /\
+                 snd (step R s o) = RErr /\ obs (fst (step R s o)) <> obs s /\
+                 exists o2, snd (step R (fst (step R s o)) o2) = RErr /\ snd (step R s o2) = ROk) /\
+  (exists R s o, reachable R s /\ quiescent s = true /\ keeps_latest R s o = true /\ keeps_features R s o = false /\
+                 snd (step R s o) = RErr /\ obs (fst (step R s o)) <> obs s /\
+                 option_map m_impl (find_mod (0, 1) (mods s)) = Some false) /\
+  (exists R s o, reachable R s /\ quiescent s = false /\ keeps_latest R s o = true /\ keeps_features R s o = true /\
+                 snd (step R s o) = RErr /\ obs (fst (step R s o)) <> obs s).
+Proof.
+  split; [|split; [|split]].
+  - exists w1_R, w1_s, w1_o. split; [apply reachable_run|]. pose proof w1_facts. tauto.
+  - exists w2_R, w2_s, w2_o. split; [apply reachable_run|]. destruct w2_facts as [A [B [C [D [E [F G]]]]]].
+    repeat (split; [assumption|]). exists (OpParse w_b1_imp_a FNull). tauto.
+  - exists w2_R, w3_s, w2_o. split; [apply reachable_run|]. destruct w3_facts as [A [B [C [D E]]]].
+    repeat (split; [assumption|]). vm_compute. reflexivity.
+  - exists w4_R, w4_s, w4_o. split; [apply reachable_run|]. pose proof w4_facts. tauto.
+Qed.
+Lemma hypotheses_satisfiable :
+  reachable w7_R w7_s /\ quiescent w7_s = true /\
+  forallb (fun o => keeps_latest w7_R w7_s o && keeps_features w7_R w7_s o &&
+                    match snd (step w7_R w7_s o) with RErr => true | _ => false end) w7_ops = true.
+Proof. split; [apply reachable_run|exact w7_facts]. Qed.
+Lemma later_load_affected :
+  exists R s o later, reachable R s /\ quiescent s = true /\ snd (step R s o) = RErr /\
+    obs (fst (step R s o)) = obs s /\ obs (run R (fst (step R s o)) later) <> obs (run R s later).
+Proof.
+  exists w5_R, w5_s, w5_o, w5_later. split; [apply reachable_run|]. exact w5_facts.
+Qed.
+Lemma data_trees_refuted :
+  exists R s o k, reachable R s /\ quiescent s = true /\ snd (step R s o) = RErr /\ obs (fst (step R s o)) = obs s /\
+    option_map m_impl (find_mod k (mods s)) = Some true /\ In k (compiled_in (fst (step R s o))).
+Proof.
+  exists w6_R, w6_s, w6_o, (0, 1). split; [apply reachable_run|]. pose proof w6_facts. tauto.
+Qed.
+Lemma later_load_unaffected : forall R s s' o2,
+  core s' = core s -> step R s' o2 = step R s o2.
+Proof. intros R s s' o2 H. apply step_core. exact H. Qed.
